@@ -12,401 +12,403 @@ Definition show_fres (r : fres) : string :=
   end.
 Definition check (rs : list rune) : string := digest (show_fres (format_res rs)).
 Definition full (rs : list rune) : string := show_fres (format_res rs).
-Eval vm_compute in ("<<<M727>>>" ++ check (runes_of_ascii "packet lengthOf { @leftPad
-( ' '
-    )
-// c
-// packet A { u8 x, }
-match len as As {
-""1""
-: leftPad
-,255
-: Pad	""1"" :
-x // a // b
-,4294967296:  u128
-, // " ++ [27880; 37322]%N ++ runes_of_ascii "
-}
-    , @rightPad( ) crc  `line1
-line2`, @lengthOf( leftPad
-    )
-@calculatedFrom( ""a\\"" ) repeat char[] _x`a\`	,repeatCount asx , repeat u	{match falsey as i8i8
-    {
-    //x
-    """ ++ [233]%N ++ runes_of_ascii "t" ++ [233]%N ++ runes_of_ascii """ : float  ,
-[ ""\n""] : _x
-    , ""CRC32""// a // b
-:
-roots
-, 7 :	matchKey
-""packet"" : Foo
-, ""1"":
-int , } ,
-}
-    ,
-    i8 x `" ++ [233]%N ++ runes_of_ascii "`	,@tag( 3
-    ) f32a ,
-    repeat
-    lengthOf {
-    //x
-    int@lengthOf(
-/// triple
-// " ++ [128512]%N ++ runes_of_ascii " emoji
-calculatedFrom )	,int64 falsey	`doc`
-    ,},// @lengthOf(
-@calculatedFrom( ""x y""
-// @lengthOf(
-//	t
-) //	t
-match x_y_z as
-    //
-    Z9_ {1 :
-    lengthOf , 255
-: u128
-, ""it's"" : Z9_  ,
-    // @lengthOf(
-    42:
-len }
-    , match
-calculatedFrom as crc  {	[ 0123456789 , 255 , ""packet"",""it's"" ,
-0, ""\n"" ,1
-    ,
-    0123456789
-] : calculatedFrom, 65535: _x ""CRC32""
-    // a // b
-    :
-tag ,[//	t
-""`tick`""
-    // @lengthOf(
-    ] : T
-    , [ ""it's"" , ""it's""
-// packet A { u8 x, }
-// `tick` ""quote"" 'q'
-, 0123456789 , """ ++ [128512]%N ++ runes_of_ascii """// " ++ [128512]%N ++ runes_of_ascii " emoji
-,
-4294967296, ""`tick`"" ] :
-pack ,
-} , }
-    packet
-//x
-// packet A { u8 x, }
-u8x { //x
-} root
+Eval vm_compute in ("<<<M1310>>>" ++ check (runes_of_ascii "
+packet Packet	{ char[7
+] rootA @lengthOf(// `tick` ""quote"" 'q'
+msg_type // trailing space 
+)`tab	here`
+, @lengthOf( msg_type
+)
+    falsey Header `tab	here` , match u8x as options1
+{ [ 42, ""1"", ""{,}"" ]: BodyLength , [ 1
+, // c
+""CRC32"" , 0 ,
+    007] : u	[// " ++ [27880; 37322]%N ++ runes_of_ascii "
+"""" ,
 // " ++ [27880; 37322]%N ++ runes_of_ascii "
 // @lengthOf(
-packet
-string_ { @tag( 3) char[]crc, @rightPad
-    ( '\x00' )@leftPad// @lengthOf(
-( ' ' )repeat char[ 42 ]Foo  ,
-    @calculatedFrom( //
-""{,}""
-)
-    string
-stringy @lengthOf( chars	)  ,@tag(
-1 // packet A { u8 x, }
-)// " ++ [128512]%N ++ runes_of_ascii " emoji
-zchar[ 007 ] charz`two words`,
-    repeat
-    msg_type
-{ char uint8x
-    `line1
-line2` , char[ /// triple
-00 ] // trailing space 
-options1 @calculatedFrom( """ ++ [233]%N ++ runes_of_ascii "t" ++ [233]%N ++ runes_of_ascii """ ) `say ""hi""` ,
-    matchKey @calculatedFrom(""1""
-    ), //
-} //x
-, @tag( 0123456789
-    )
-    //	t
-    zchar[
-00
-//
+""a\\""
+// " ++ [128512]%N ++ runes_of_ascii " emoji
 // a // b
+,
+""" ++ [233]%N ++ runes_of_ascii "t" ++ [233]%N ++ runes_of_ascii """ ,7 ,
+""abc"",  """", 10 ,  ""abc""]
+    : metadata
+    , ""1"" :x_y_z
+    , ""x y"" :Packet }
+    ,
+lengthOf {// trailing space 
+match
+repeatCount as
+Packet
+{007 : Z9_ ,[ 65535
+, 65535 ] :msg_type
+,""{,}""  : tag ,
+}, repeat x
+msg_type, f32 Logon , } ,
+zchar[ 0
 ]
-    // packet A { u8 x, }
-    lengthOf , @tag( 3 )
-    falsey As , } packet
-lengthOf{	chars { Packet
-`tab	here`, metadata ,
-    repeat zchar ,	} ,match matchKey  as roots { ""x y"" :  float }
-    // packet A { u8 x, }
-    , @tag(1 ) @tag( 4294967296)
-T
-{ int32
-    // `tick` ""quote"" 'q'
-    string_ `a\`
-    ,i8
-    // a // b
-    Pad @calculatedFrom( ""a\""b""
-) // packet A { u8 x, }
-`u8 x,`
-// a // b
-// trailing space 
-, repeat char[]
     //x
-    zchar `" ++ [233]%N ++ runes_of_ascii "` , u8x { repeat char[]x_y_z ,
-} , } , @rightPad
-( '\x00' )
-repeat zchar[// trailing space 
-7  ] // @lengthOf(
-i8i8//	t
-, }")).
-Eval vm_compute in ("<<<M88>>>" ++ check (runes_of_ascii "options  { BodyLength
-=
-    string; trueish	=""it's"" i8i8
-    =  ""// no comment""
+    As
+    ,
+@tag(
+    42 //	t
+)@calculatedFrom(
+""\n"") f64 u128 @calculatedFrom( """ ++ [28040; 24687]%N ++ runes_of_ascii """ ) ,rootA ,
+    chars
+    u128
+, zchar {i64//	t
+i64_ ,
+    int32 i64_ @calculatedFrom(
+    ""// no comment""
+) ,
+    falsey	`doc`  ,	}
+, @leftPad ( '0' ) char packetx  @calculatedFrom( ""\n"" ) // packet A { u8 x, }
+`say ""hi""` , }
+packet roots { @calculatedFrom( ""a\\""
+    ) chars @calculatedFrom(
+    ""\n"" )`a\` ,
+    @calculatedFrom( ""CRC32"" )
+char[ // `tick` ""quote"" 'q'
+65535
+]roots
+,	@tag( 7 )  Logon u8x `{ , }`,match Foo
+    as // " ++ [128512]%N ++ runes_of_ascii " emoji
+Logon  {
+    ""`tick`""// a // b
+: uint8x,
+    """"
+    : leftPad /// triple
+, 3 :
+    leftPad ,
+1 : options1, } ,@lengthOf(uint8x
+    ) @leftPad ( '\x00' )
+    @rightPad	(
+    )
+u128
+``,
+rootA { //x
+match len as
+    float { 42
+    : trueish
+    , ""`tick`"" :Packet
+//x
+// @lengthOf(
+, 0123456789// a // b
+:
+    //
+    As
+, ""CRC32""
+: Header,
+} ,
+repeat string Z9_
+    `say ""hi""` , } , //	t
+@rightPad (
+' ') @lengthOf( repeatCount )i32 _x
+    `
+` , match
+    // a // b
+    Header
+as crc {	007 :	Z9_[ 4294967296
+    ,
+4294967296
+    ] : crc ,
+    10
+    :A
+,  [
+4294967296 , 3 ,
+7	, 42, 1
+    ,  7] : _x ,1 : uint8x
+}
+    , i8i8{ stringy
+@lengthOf( _x
+) `
+` ,
+    } ,
+    } packet repeatCount{
+@tag(	0)@calculatedFrom(""a\\"" )repeat
+    u32 T`
+`,matchKey pack, // `tick` ""quote"" 'q'
+options1 {// trailing space 
+match asx as
+o {
+    ""{,}"" : lengthOf,""a	b"" : lengthOf,10  :
+    calculatedFrom } ,
+    // a // b
+    i8i8 ,Pad@calculatedFrom( // @lengthOf(
+""{,}""
+    ) `// not a comment`  ,},
+    @tag(
+0123456789 ) // " ++ [27880; 37322]%N ++ runes_of_ascii "
+repeat int , uint32 asx	`a\` , } root
+    packet trueish {
+zchar[ 7 ] i64_ , } packet chars /// triple
+{ @rightPad(
+) //	t
+repeat char[255] lengthOf
+`line1
+line2`	, }
+")).
+Eval vm_compute in ("<<<M956>>>" ++ check (runes_of_ascii "packet o { crc
+{ string leftPad
+@calculatedFrom(
+""\n"" ) /// triple
+`it's` , uint16
+x_y_z ,Logon,
+    string crc
+    @lengthOf( crc // a // b
+) ,} ,
+    @calculatedFrom( //x
+"""" ) u64
+matchKey `` , match  leftPad as len {00
+: //x
+charz, }
+    , @tag(
+007 ) @tag( 65535 )
+// a // b
+//	t
+repeat
+// packet A { u8 x, }
+//x
+stringy crc, @lengthOf(
+f32a)match tag  as leftPad{ ""1""
+:// " ++ [128512]%N ++ runes_of_ascii " emoji
+_x
+    ,
+// trailing space 
+//x
+} , roots { tag
+    , float64 body , // packet A { u8 x, }
+f64 As
+@lengthOf( // trailing space 
+tag)
+`line1
+line2`,
+} , i64_ @calculatedFrom(
     // trailing space 
-    roots
+    ""x y"" // `tick` ""quote"" 'q'
+) , // " ++ [128512]%N ++ runes_of_ascii " emoji
+Packet @calculatedFrom(
+""\n""), @lengthOf(
+    BodyLength)
+char[ 42
+    // a // b
+    ]int @lengthOf( lengthOf ) `say ""hi""` ,
+} MetaData u{ f64 msg_type , uint8
+As `say ""hi""`, leftPad
+packetx
+, int32 As // " ++ [27880; 37322]%N ++ runes_of_ascii "
+`tab	here`,	i64 trueish	, uint16
+    calculatedFrom ,} packet
+f32a{ roots x_y_z , match body as  f32a
+// @lengthOf(
+//	t
+{ [ 255, 10
+]
+// packet A { u8 x, }
+// `tick` ""quote"" 'q'
+: BodyLength , ""// no comment""
+    :
+packetx
+    , [ ""{,}"" , 65535 ,
+4294967296
+, 255
+, 7
+, //x
+""{,}"" // a // b
+,"""" ,0 ]
+: uint8x 255 : trueish , 7 : u128
+    ,0123456789 :
+    asx , } , // " ++ [128512]%N ++ runes_of_ascii " emoji
+match
+    //	t
+    A as  o {  0
+:
+    trueish // `tick` ""quote"" 'q'
+,""1""
+: i8i8 , 42 : Z9_ ,
+    }
+    , options1  , @tag(	0123456789 )repeat
+    /// triple
+    zchar { Foo
+    @lengthOf( float), /// triple
+}// c
+, match msg_type as u{// packet A { u8 x, }
+0123456789
+:
+    repeatCount,
+    } , @calculatedFrom( ""it's"" )i64_ @lengthOf( x_y_z  )
+, char[  00
+    ]Packet `" ++ [28040; 24687; 31867; 22411]%N ++ runes_of_ascii "` ,u16 // @lengthOf(
+lengthOf `a\` ,
+@calculatedFrom( ""\" ++ [233]%N ++ runes_of_ascii """) i64_ int , } packet uint8x{ string Header @lengthOf(matchKey )	`" ++ [28040; 24687; 31867; 22411]%N ++ runes_of_ascii "`
+,}
+    packet
+crc {
+// " ++ [128512]%N ++ runes_of_ascii " emoji
+// `tick` ""quote"" 'q'
+}
+")).
+Eval vm_compute in ("<<<M156>>>" ++ check (runes_of_ascii "packet  zchar
+    { char[]  string_ ,
+    // @lengthOf(
+    msg_type , match
+    roots // " ++ [27880; 37322]%N ++ runes_of_ascii "
+as metadata { 3: Logon
+, [""a\\"",""1"" , 3 ,
+00
+    , ""a\\"" ,7, 65535 , 3 ]
+    :x_y_z
+    , 0123456789 : o , ""\" ++ [233]%N ++ runes_of_ascii """ : x ""CRC32"" :
+Foo,
+    }, char Header`u8 x,` ,
+    } //	t
+options	{
+    } packet
+    //	t
+    As{zchar[
+    // @lengthOf(
+    10	] roots ,
+    char[7 ]
+calculatedFrom //
+@lengthOf( body ), char stringy	@lengthOf(metadata /// triple
+) ,
+Pad // trailing space 
+u128 , @calculatedFrom( ""it's"") Z9_ ,  match
+falsey	as /// triple
+MetaDataX
+    { 4294967296 : float,//x
+3 :
+    Pad 1
+:T,} /// triple
+,
+    @tag(
+3 ) char[]
+A @calculatedFrom( ""it's""
+) ,  o tag ,
+@lengthOf( x // packet A { u8 x, }
+) zchar[ 4294967296
+    ]
+    rootA // @lengthOf(
+`
+` , } root packet Logon {	repeat _x {leftPad  `crlf
+line` ,
+}
+    , repeat i8 Packet  , MetaDataX`// not a comment`// " ++ [27880; 37322]%N ++ runes_of_ascii "
+, asx`two words` ,
+repeat lengthOf tag , @calculatedFrom( // `tick` ""quote"" 'q'
+""CRC32"" ) // @lengthOf(
+match repeatCount// packet A { u8 x, }
+as
+BodyLength { """ ++ [128512]%N ++ runes_of_ascii """ : len
+[
+    255
+, ""a\\"", 0123456789 , ""CRC32"", // " ++ [128512]%N ++ runes_of_ascii " emoji
+7, 42
+    // a // b
+    ]
+: repeatCount
+,
+},
+i64_ msg_type `crlf
+line` , }
+packet repeatCount{
+    @calculatedFrom(
+""a\""b"" )
+    match
+a1 as
+    matchKey// packet A { u8 x, }
+{00 : options1,
+    4294967296
+    : x_y_z , [3 ,
+""a	b"" ,0123456789
+] : i64_ ,
+0 : leftPad ,""`tick`"" :int [""" ++ [28040; 24687]%N ++ runes_of_ascii """ // @lengthOf(
+]
+// trailing space 
+/// triple
+: Z9_, }
+    , }
+")).
+Eval vm_compute in ("<<<M1271>>>" ++ check (runes_of_ascii "//	t
+root	packet T { i8 //
+roots, @lengthOf( Pad
+    )
+    @calculatedFrom( // @lengthOf(
+""a	b"") @rightPad ('0' )
+float @calculatedFrom( // " ++ [128512]%N ++ runes_of_ascii " emoji
+""" ++ [28040; 24687]%N ++ runes_of_ascii """//	t
+) `{ , }` ,	@lengthOf(	roots )
+repeat
+    tag {match
+i8i8
+    as packetx{
+// a // b
+/// triple
+[""// no comment"" ] //x
+: // " ++ [128512]%N ++ runes_of_ascii " emoji
+packetx ,""\" ++ [233]%N ++ runes_of_ascii """  :  i8i8 ,""a\\"" : //x
+Packet
+    ,
+    // packet A { u8 x, }
+    00
+/// triple
+// @lengthOf(
+: a1 ,
+    ""1"" :
+Foo
 // a // b
 // packet A { u8 x, }
-=// `tick` ""quote"" 'q'
-""" ++ [28040; 24687]%N ++ runes_of_ascii """ ;// a // b
-falsey = '\x00' ; } packet metadata{
-    packetx
-    { repeat rootA x_y_z `tab	here` , repeat pack
-, Logon {
-    u16 msg_type , u8 BodyLength
-`
-`,
-zchar[
-3 ] int  ,} ,
-a1
-T, }
-, // `tick` ""quote"" 'q'
-repeat f32 o `crlf
-line`
-, i32 rootA, int32  matchKey , @leftPad
-// a // b
-// @lengthOf(
-( )
-x_y_z {	match body	as	u8x
-    { [ ""{,}"" ]:u8x	, 3:
-u8x , 4294967296: As ,
-[ ""CRC32"" ]:A
+, ""\" ++ [233]%N ++ runes_of_ascii """ :	rootA, }//
 ,
-255 // packet A { u8 x, }
-: body
-    //
-    , // c
-42
-    :
-x_y_z }
-, } , repeat
-body float
-, } // trailing space 
-packet trueish
-{ stringy @lengthOf( float )	`{ , }`
-,repeat// packet A { u8 x, }
-i64_ ,
-    uint16 string_
-    // `tick` ""quote"" 'q'
-    @calculatedFrom(
-""\" ++ [233]%N ++ runes_of_ascii """)
-`
-`	, // a // b
-@tag( 0123456789)char[
+    uint8x
+matchKey // " ++ [27880; 37322]%N ++ runes_of_ascii "
+`two words`
+,
+char[ 0123456789 ]  i8i8, }	,  @lengthOf( calculatedFrom
     //x
-    4294967296 ]
-    calculatedFrom @lengthOf( int )`line1
-line2`	, // packet A { u8 x, }
-match rootA as asx
-{	""\" ++ [233]%N ++ runes_of_ascii """: f32a, ""\n"" :
-    rootA [ ""a\\""
-//
-//
-, 0123456789 ] : crc
-,1 : msg_type , ""a	b"" :stringy// packet A { u8 x, }
-, }
-    // " ++ [27880; 37322]%N ++ runes_of_ascii "
-    ,repeat len	{ string_{i16 _x , _x { repeat uint8x a1
-, char[ 42
-    ]	zchar
-    `say ""hi""` , zchar[ 7  ] uint8x ,
-}
-    ,repeat i8i8 body, }
-    // " ++ [128512]%N ++ runes_of_ascii " emoji
-    , uint8
-T	@lengthOf(
-repeatCount ), } ,}root packet asx { @calculatedFrom(	""x y""
-)
-repeat pack ,repeat string_ { u8 metadata
-,} ,  @calculatedFrom( ""abc"" )	roots
+    )
+Foo a1 , @lengthOf( pack ) zchar[ 3  ]
+trueish , } root packet o { /// triple
+}	root packet // " ++ [128512]%N ++ runes_of_ascii " emoji
+tag // `tick` ""quote"" 'q'
+{// c
+@lengthOf(A	)
+uint16 i64_
+    `it's`
+    , // a // b
+repeat roots{
+string stringy
+    ,
+    match _x as int { 7
+:// packet A { u8 x, }
+leftPad , 65535  :lengthOf,
+7 : Foo , ""a\\""
+    //	t
+    : float , 255
+:
+    leftPad
+    007 :u128 ,} ,MetaDataX
 @lengthOf(
-    T
-) `` , match asx as uint8x
-{ 3: u8x, }
-    // a // b
-    ,// trailing space 
-u8x@calculatedFrom( ""{,}"" ) , } packet o // " ++ [128512]%N ++ runes_of_ascii " emoji
-{ string Logon ,charz metadata , match// c
-len as
-float{
-255
-    :
-    //	t
-    uint8x , ""CRC32"": As ,
-    1
-    : body , 7
-:	options1 ,[	""" ++ [128512]%N ++ runes_of_ascii """,""it's"" //
-]:
-    repeatCount}, @leftPad ( ) @calculatedFrom( ""x y"" )  @leftPad(  ' ' )repeat lengthOf,zchar[
-42  ]
-    Logon@calculatedFrom(// packet A { u8 x, }
-"""" ), }
-//x
-")).
-Eval vm_compute in ("<<<M3930>>>" ++ check (runes_of_ascii "// @lengthOf(
-MetaData zchar {
-    string o `crlf
-        line`,
-    char[] pack `crlf
-        line`,
-    char[] Foo,
-}
-
-options {
-    stringy = ""`tick`""
-}
-
-packet leftPad {
-    packetx @lengthOf(roots),
-    @lengthOf(int)
-    @calculatedFrom(""a\""b"")
-    @calculatedFrom(""" ++ [28040; 24687]%N ++ runes_of_ascii """)
-    int32 MetaDataX `" ++ [233]%N ++ runes_of_ascii "`,
-    u8 int,
-    @lengthOf(options1)
-    repeat u8 BodyLength,
-    @tag(1)
-    Logon,
-    repeat int32 u8x `say ""hi""`,
-    match int as charz {
-        ""abc"" : roots,
-    },
-    string_ {
-        zchar @lengthOf(calculatedFrom) ``,
-    },
-}
-
-root packet lengthOf {
-    @tag(4294967296)
-    A @lengthOf(i64_) `doc`,
-    body @lengthOf(lengthOf) `it's`,
-    zchar[10] i8i8,
-    @calculatedFrom(""" ++ [233]%N ++ runes_of_ascii "t" ++ [233]%N ++ runes_of_ascii """)
-    i64 int `u8 x,`,
-    repeat trueish {
-        string options1,
-        zchar[0123456789] _x `tab	here`,
-        Pad {
-            repeat string repeatCount,
-            repeat string _x,
-            Packet @lengthOf(roots) `
-                        `,
-            string crc @calculatedFrom(""abc""),
-        },
-        match i8i8 as string_ {
-            // c
-            [""it's""] : options1,
-            //
-            // @lengthOf(
-            ""a	b"" : string_,
-            [00, ""a	b""] : metadata,
-            0 : o,
-            ""\" ++ [233]%N ++ runes_of_ascii """ : Pad,
-        },
-    },
-    char[7] i8i8 `tab	here`,
-    roots {
-        repeat uint8 _x `tab	here`,
-    },
-    repeat int64 f32a,
-    match asx as calculatedFrom {
-        65535 : asx,
-        [1] : uint8x,
-        42 : x,
-        [
-            ""x y"", ""1"", ""`tick`"", ""1"", ""1"",
-            ""a	b""
-        ] : MetaDataX,
-    },
-}
-
-MetaData chars {
-}")).
-Eval vm_compute in ("<<<M103>>>" ++ check (runes_of_ascii "packet
-trueish {
-@calculatedFrom(	"""" ) u
-    @lengthOf( a1
-) ,
-} options //	t
-{
-    trueish =
-42 }
-options { //	t
-}packet Foo {match matchKey
-as body	{
-    // `tick` ""quote"" 'q'
-    [4294967296 ]	: Packet , 00 : A ,
-    } , @calculatedFrom( ""x y"" ) // " ++ [27880; 37322]%N ++ runes_of_ascii "
-@lengthOf(	a1)
-    repeat f64	rootA , } packet len{ @calculatedFrom( ""// no comment"") string T @lengthOf(
-f32a )
-    , float32 chars
-    , @rightPad ( ' ' ) repeat chars{ string A , string
-i64_ `line1
-line2`
-,
-float32
-    //
-    i8i8 ,uint64
-    /// triple
-    matchKey @calculatedFrom( ""abc"" )
-/// triple
-// `tick` ""quote"" 'q'
-`" ++ [233]%N ++ runes_of_ascii "` , } , A
-    `a\` ,
-@tag( 00
-)
-    @tag( 0123456789 )
-    @tag( 1	)
-u128 {i64_
-    {
-// c
-// trailing space 
-BodyLength , i64 u
-`{ , }` , match
-    Z9_
-    as
-chars /// triple
-{ ["""" ] : // `tick` ""quote"" 'q'
-float , [ 0123456789  , 42
-    , 3 ,
-    //	t
-    10  , 10 ]
-// a // b
-/// triple
-: stringy , ""1"" :trueish , // packet A { u8 x, }
-""packet"" : u128 [
-""x y"" ,7 ] : A
-} ,
-    int32	a1 ,} , rootA
-//x
-/// triple
-`doc` ,
-//x
-// `tick` ""quote"" 'q'
-} , @rightPad ( ' ' ) repeat options1  { int
-    @calculatedFrom( ""packet"" ) , // " ++ [128512]%N ++ runes_of_ascii " emoji
-} , repeat char[65535]
-    falsey
+leftPad ) , lengthOf @calculatedFrom( ""`tick`"" )
+,}
+, @rightPad
+() @lengthOf( f32a )	zchar[ 00 ]  T // packet A { u8 x, }
+@calculatedFrom(
+""a\""b"" ) ,  repeat  Pad{ zchar[ 0 ]
+msg_type`say ""hi""`// " ++ [27880; 37322]%N ++ runes_of_ascii "
+,} , u64
+    string_ @lengthOf(
     // packet A { u8 x, }
-    , @rightPad ( ) repeat char[] i8i8,
-repeat calculatedFrom  msg_type ,@rightPad (	) @tag(
-65535 ) repeat calculatedFrom crc , } 	 ")).
-Eval vm_compute in ("<<<M4485>>>" ++ check (runes_of_ascii "packet BodyLength {
+    T	)  `line1
+line2`
+    ,
+    // packet A { u8 x, }
+    }
+")).
+Eval vm_compute in ("<<<M4352>>>" ++ check (runes_of_ascii "packet BodyLength {
     match As as x {
-        [0, ""a	b"", ""it's""] : float,
+        [""a	b"", ""it's"", 0] : float,
         42 : u128,
         ""a\\"" : BodyLength,
         0 : Packet,
@@ -422,8 +424,8 @@ Eval vm_compute in ("<<<M4485>>>" ++ check (runes_of_ascii "packet BodyLength {
         i64_ {
             match A as zchar {
                 [
-                    65535, 0, 42, """ ++ [128512]%N ++ runes_of_ascii """, ""`tick`"",
-                    ""x y"", ""a\""b"", """ ++ [128512]%N ++ runes_of_ascii """
+                    65535, """ ++ [128512]%N ++ runes_of_ascii """, ""`tick`"", ""x y"", ""a\""b"",
+                    0, """ ++ [128512]%N ++ runes_of_ascii """, 42
                 ] : float,
                 ""a	b"" : Pad,
                 007 : repeatCount,
@@ -447,7 +449,7 @@ root packet lengthOf {
         [4294967296] : Packet,
         [""a	b"", ""{,}""] : calculatedFrom,
         [
-            0123456789, 42, 255, """ ++ [28040; 24687]%N ++ runes_of_ascii """, ""a	b"",
+            """ ++ [28040; 24687]%N ++ runes_of_ascii """, 0123456789, ""a	b"", 42, 255,
             ""\" ++ [233]%N ++ runes_of_ascii """
         ] : msg_type,
     },
@@ -463,1499 +465,1169 @@ root packet lengthOf {
 packet _x {
     char[] _x ``,
 }")).
-Eval vm_compute in ("<<<M450>>>" ++ check (runes_of_ascii "
-packet BodyLength
-{ match As as
-x
-    {	[	""a	b""
-, ""it's"" , 0	] // trailing space 
-: float , 42
-:u128 , ""a\\"":
-    BodyLength	0 :  Packet
-//	t
-//
-""\" ++ [233]%N ++ runes_of_ascii """
-:
-    // " ++ [128512]%N ++ runes_of_ascii " emoji
-    roots	""\n""	: string_ }
-    // @lengthOf(
-    , msg_type	{ char[
-4294967296 ] options1 // " ++ [27880; 37322]%N ++ runes_of_ascii "
-, } , i8i8{ i64_ { match
-    A	as zchar
-    {
-[
-65535 ,
-""" ++ [128512]%N ++ runes_of_ascii """
-// a // b
-// `tick` ""quote"" 'q'
-, ""`tick`"" , ""x y"",""a\""b"" ,	0 , """ ++ [128512]%N ++ runes_of_ascii """ ,
-42 ] : float ""a	b""
-:	Pad 007	: repeatCount
-,// " ++ [128512]%N ++ runes_of_ascii " emoji
-}	,
-    //
-    uint64 Z9_ `" ++ [233]%N ++ runes_of_ascii "` ,crc ,} , /// triple
-repeat char[ 255 ] uint8x , uint32 pack @calculatedFrom( ""{,}""	)
-    , }
-,
-@calculatedFrom( ""a	b"" // `tick` ""quote"" 'q'
+Eval vm_compute in ("<<<M929>>>" ++ check (runes_of_ascii "packet	string_ // packet A { u8 x, }
+{ @lengthOf( x_y_z// " ++ [128512]%N ++ runes_of_ascii " emoji
+) u8x // @lengthOf(
+@lengthOf( MetaDataX
+) , match u128 as calculatedFrom
+    { ""// no comment"" :
+    Foo } ,@tag(
+255	)f32a body , f64 i64_
+`two words`	, @tag( 7  ) @leftPad (
 )
-    tag
-@lengthOf( Packet )	`" ++ [233]%N ++ runes_of_ascii "`
-//
-// packet A { u8 x, }
-, }
-root
-packet// c
-lengthOf
-    // @lengthOf(
-    { i32 x ,
-match i64_ as Logon
+// c
+// a // b
+@calculatedFrom( """ ++ [233]%N ++ runes_of_ascii "t" ++ [233]%N ++ runes_of_ascii """ ) uint16 u @lengthOf( i64_	) `tab	here` , @lengthOf( options1 )
+    roots {
+string
+    x@calculatedFrom( ""1""	)
+,
+len
+`say ""hi""` ,
+    rootA @lengthOf( crc )
+    //	t
+    , i64_ @lengthOf( Logon )
     // trailing space 
-    {3 : rootA,[//x
-4294967296]:Packet, [ ""a	b"" ,
-    ""{,}""] :
-calculatedFrom ,[  """ ++ [28040; 24687]%N ++ runes_of_ascii """ , 0123456789 ,
-""a	b"" , 42 , 255 ,
-""\" ++ [233]%N ++ runes_of_ascii """ ]	:msg_type
-    ,  } // `tick` ""quote"" 'q'
-, @lengthOf(Header)	repeat  float {
-    string asx
-    , }  ,match	string_ // " ++ [128512]%N ++ runes_of_ascii " emoji
-as u {""" ++ [233]%N ++ runes_of_ascii "t" ++ [233]%N ++ runes_of_ascii """:  uint8x	} ,
-    } packet _x // trailing space 
-{
-char[] _x`` , }
-")).
-Eval vm_compute in ("<<<M571>>>" ++ check (runes_of_ascii "root
-    packet
-BodyLength // `tick` ""quote"" 'q'
-{x_y_z
-@calculatedFrom(""" ++ [233]%N ++ runes_of_ascii "t" ++ [233]%N ++ runes_of_ascii """)
-    //x
-    , //	t
-@lengthOf( A
-    )int8	options1`u8 x,`
-, @rightPad ( )
-// " ++ [128512]%N ++ runes_of_ascii " emoji
-// " ++ [27880; 37322]%N ++ runes_of_ascii "
-repeat
-zchar[1 ]// " ++ [128512]%N ++ runes_of_ascii " emoji
-asx//	t
-`
-` ,
-i8i8@lengthOf( asx) `it's` ,
-uint64 i8i8
-    , int32
-// trailing space 
-// @lengthOf(
-Packet @lengthOf(  x_y_z  )
-,	@tag(1 )	repeat uint8 len
-    , char[] matchKey ,char[
-7  ] chars
-    @calculatedFrom( """ ++ [233]%N ++ runes_of_ascii "t" ++ [233]%N ++ runes_of_ascii """
-), } packet i8i8 { match body
-as	repeatCount { [ ""a\\"",""// no comment"",0123456789 , ""x y"",""// no comment"", 7 , 1  ]:
-Foo 007 : T,[
-""a\""b"" , 0] : BodyLength ,
-    } ,	repeat Z9_ {
-charz @calculatedFrom(""\n"" )
-`tab	here` , // `tick` ""quote"" 'q'
-repeatCount Pad `tab	here`, i32 asx @lengthOf(
-i64_ )
-    ,  }
-    , } packet uint8x
-    {
-@calculatedFrom(""" ++ [233]%N ++ runes_of_ascii "t" ++ [233]%N ++ runes_of_ascii """ )
-zchar[ 0 ] metadata
-, } options{ msg_type= true string_  = 007 a1 = ""// no comment"" ; } MetaData packetx{ BodyLength
-body
-    `line1
-line2`/// triple
-, float tag,x_y_z string_`crlf
-line` , BodyLength f32a`" ++ [28040; 24687; 31867; 22411]%N ++ runes_of_ascii "`
-// a // b
-// packet A { u8 x, }
-,
-    char[ 255
-]  stringy , }
-")).
-Eval vm_compute in ("<<<M4139>>>" ++ check (runes_of_ascii "
-
-  packet
-Packet
-{
-
-match
-	a1	as
-    calculatedFrom	//
-  {
-
-    // `tick` ""quote"" 'q'
-  00 :
-falsey 
-""" ++ [233]%N ++ runes_of_ascii "t" ++ [233]%N ++ runes_of_ascii """ :
-string_  ,[
-    00 ]
-    :
-o, 
-""it's"" :	u ,//	t
-	10
-:  BodyLength
-	""1""
-
-: BodyLength
-, }
-,
-
-}
-
-    root 
-packet calculatedFrom
-	{ repeat
-uint64
-int `line1
-line2` 
-,string
-
-    rootA `` ,
-@lengthOf( i64_)
-leftPad
-    @calculatedFrom(
-""\" ++ [233]%N ++ runes_of_ascii """)
-`line1
-line2`, uint8 x_y_z // `tick` ""quote"" 'q'
-  `" ++ [28040; 24687; 31867; 22411]%N ++ runes_of_ascii "`, } 
-options
-    {} 
-MetaData  crc  {pack 
-asx
-    `" ++ [233]%N ++ runes_of_ascii "`
-
-    , }
-
-packet
-rootA { 
-@lengthOf(
-    x_y_z  ) repeat
-
-T
-
-Pad
-// a // b
-  	// " ++ [128512]%N ++ runes_of_ascii " emoji
-,string len, 
-match	float
-
-    as
-
-    matchKey {  ""a\""b""
-
-:  x
-//	t
-    	, 
-007 : calculatedFrom
-,
-	255 :	// @lengthOf(
-    crc
-
-    ,
-	}
-    ,
-	int32 
-  //x
-  //
-float
-	, @leftPad ( 
-' ')@lengthOf( stringy  )
-	@calculatedFrom(  ""`tick`""
-	)
-    repeat float {
-
-zchar[
-00
-]  crc	@calculatedFrom( ""1""
-
-    )
-    `// not a comment`
-,
-//x
-    	string	stringy`doc` ,
-
-}  ,
-
-    i16
-asx`doc` ,  
-  // `tick` ""quote"" 'q'
-} ")).
-Eval vm_compute in ("<<<M3757>>>" ++ check (runes_of_ascii "// a // b
-packet chars {
-    i64_ tag `say ""hi""`,
-}
-
-// " ++ [128512]%N ++ runes_of_ascii " emoji
-// `tick` ""quote"" 'q'
-packet tag {
-}// c
-
-packet roots {
-    repeat x_y_z `
-    `,
-}
-
-packet lengthOf {
-    // c
-    i64 int `{ , }`,
-    @lengthOf(trueish)
-    @lengthOf(stringy)
-    // @lengthOf(
-    repeat x repeatCount `u8 x,`,
-    char[] rootA,
-    uint16 int @calculatedFrom(""\" ++ [233]%N ++ runes_of_ascii """) `say ""hi""`,
-    @lengthOf(string_)
-    char[] int @calculatedFrom(""a\\""),
-    @tag(0)
-    @calculatedFrom(""\n"")
-    // " ++ [128512]%N ++ runes_of_ascii " emoji
-    i32 string_ @lengthOf(falsey) `say ""hi""`,
-    @tag(3)
-    @lengthOf(BodyLength)
-    repeat Z9_ {
-        match T as charz {
-            // packet A { u8 x, }
-            [
-                255, 00, 0123456789, ""a\""b"", """",
-                ""\n"", ""\" ++ [233]%N ++ runes_of_ascii """
-            ] : x_y_z,
-            3 : Foo,
-        },
-        char[4294967296] calculatedFrom @lengthOf(Z9_),
-    },
-    i64 trueish @lengthOf(T) `" ++ [233]%N ++ runes_of_ascii "`,
-    @lengthOf(body)
-    @lengthOf(matchKey)
-    tag trueish ``,
-}
-
-packet Foo {
-}")).
-Eval vm_compute in ("<<<M1222>>>" ++ check (runes_of_ascii "//	t
-root packet Header{ @tag(
-255  )
-    float32 msg_type
-// @lengthOf(
-// packet A { u8 x, }
-@lengthOf(u8x	) `" ++ [28040; 24687; 31867; 22411]%N ++ runes_of_ascii "` ,
-    //x
-    @calculatedFrom( ""a	b"" )
-    repeat string i64_, repeat x_y_z {//x
-asx , string i8i8 @lengthOf( float ) ,uint16 // `tick` ""quote"" 'q'
-As// @lengthOf(
-@calculatedFrom( ""x y""
-    //
-    )	, }	,//
-@lengthOf( i8i8) msg_type { match
-tag as Z9_ {
-[1
-    // " ++ [27880; 37322]%N ++ runes_of_ascii "
-    , ""packet"" ] : Z9_ ,
-[4294967296	] : options1
-,""\n"" :
-Pad,
-} ,
-    match calculatedFrom as packetx
-{ 0123456789 /// triple
-:	metadata [ """ ++ [233]%N ++ runes_of_ascii "t" ++ [233]%N ++ runes_of_ascii """
-] :
-    T , 1
-    : i64_ , } , //	t
-match BodyLength as chars{ 0
-    : metadata
-,""" ++ [128512]%N ++ runes_of_ascii """
-: u128, ""a\""b"" :
-    calculatedFrom ,
-0
-: As, """ ++ [128512]%N ++ runes_of_ascii """ :x_y_z 7
-    :f32a,}//	t
-,u trueish
-    // " ++ [128512]%N ++ runes_of_ascii " emoji
-    ,
-} , } MetaData charz
-{i32 // " ++ [128512]%N ++ runes_of_ascii " emoji
-x `u8 x,`
-,
-char[]
-calculatedFrom`two words`, int8
-// packet A { u8 x, }
-// trailing space 
-packetx `crlf
-line`	, } MetaData//	t
-charz {
-}
-")).
-Eval vm_compute in ("<<<M4231>>>" ++ check (runes_of_ascii "// top
-
-options
-	// c0
-  {	LittleEndian
-    // c2
-  = 	 // c3
-
-	true
-    // c4
-      ;
-    // c5
-		} 	 // c6
-	packet // c7a
-  	// c7b
-	Logon
-// c8
-		{ 	 // c9a
-    // c9b
-u8
-// c10
-      x
-
-    // c11
-
-  ,// c12
-    string
-    // c13
-      user
-    ,  // c15a
-    // c15b
-
-  } 	 // c16a
-	  // c16b
-    	packet	// c17
-	Logout// c18a
-
-// c18b
-		{ 
-// c19
-		u16 
-        // c20
-reason	,} // c23a
-
-  // c23b
-  packet
-
-Empty// c25a
-  // c25b
-  	{ // c26
-    }
-// c27
-root// c28a
-	  // c28b
-    	packet// c29a
-  	// c29b
-Frame
-        // c30
-		{	u16 
-        // c32
-	MsgType  , 
-        // c34
-
-@lengthOf(
-// c35
-
-  Body
-
-    ) // c37a
-  // c37b
-	  u8  // c38
-BodyLen 	 // c39a
-    // c39b
-  , 
-    // c40
-    u8
-// c41
-flags 
-,Logon 
-// c44
-    Body 
-    // c45
-,	// c46a
-// c46b
-  u32
-
-trailer
-	    // c48
-	, // c49a
-
-	// c49b
-
-	} 	 // c50a
-
-// c50b
-")).
-Eval vm_compute in ("<<<M1103>>>" ++ check (runes_of_ascii "/// triple
-packet // packet A { u8 x, }
-asx{stringy BodyLength `doc`,
-    @tag( 00 ) A
-    {  f32a  , i32 // @lengthOf(
-x_y_z @calculatedFrom( //
-""1"" ) `doc`, u32 // packet A { u8 x, }
-x_y_z
-    `" ++ [28040; 24687; 31867; 22411]%N ++ runes_of_ascii "` , uint16
-o `a\`
-, // a // b
-} ,
-//x
-// trailing space 
-@leftPad ( ' ' )
-x_y_z @calculatedFrom( ""x y"" ) `{ , }` ,
-@calculatedFrom(
-""{,}""
-    // " ++ [27880; 37322]%N ++ runes_of_ascii "
-    )	MetaDataX ,
-    }packet x_y_z {
-    @calculatedFrom(
-""a\\"" )
-repeat char[
-    4294967296 ]	zchar
-    // `tick` ""quote"" 'q'
-    `it's` , @tag( 10
-)
-matchKey
-    @calculatedFrom( ""CRC32"")  , @calculatedFrom( ""it's"") repeat uint8x
-, zchar[ 7 ]  msg_type @lengthOf( crc )
-    `line1
-line2` ,falsey { x_y_z MetaDataX, int32 chars `" ++ [233]%N ++ runes_of_ascii "`
-// " ++ [128512]%N ++ runes_of_ascii " emoji
-// " ++ [128512]%N ++ runes_of_ascii " emoji
-, char[]
-stringy @calculatedFrom( """ ++ [128512]%N ++ runes_of_ascii """
-    )`" ++ [233]%N ++ runes_of_ascii "`,} ,@calculatedFrom(  ""abc""
-// a // b
-// a // b
-) repeat char Z9_ , }
-")).
-Eval vm_compute in ("<<<M1187>>>" ++ check (runes_of_ascii "packet len {	@tag( 007 ) @lengthOf(  calculatedFrom
-    // @lengthOf(
-    )
-@rightPad
-( '0' )
-roots
-asx `
-` ,@calculatedFrom(
-    ""\" ++ [233]%N ++ runes_of_ascii """ )
-    //
-    repeatCount @lengthOf(matchKey
-) `it's` , @lengthOf(
-int ) match
-    repeatCount as rootA {  ""packet""
-// `tick` ""quote"" 'q'
-// " ++ [27880; 37322]%N ++ runes_of_ascii "
-: x_y_z
-[ ""1""
-    // `tick` ""quote"" 'q'
-    ,
-65535 , 3, ""{,}"" ,//x
-"""" ]
-:
-    Logon } ,repeat options1 ,
-stringy@lengthOf(
-/// triple
-//	t
-Header )
-`
-` ,
-    repeat
-zchar[ 7 ]msg_type `tab	here`
-,/// triple
-zchar[ 10] u8x, Pad
-    {u8x
-@calculatedFrom(	""packet"" )  ,},  i8i8 {
-repeat uint8x lengthOf ,
-    match Z9_
-    as A
-    // " ++ [128512]%N ++ runes_of_ascii " emoji
-    { 0	:trueish , } ,
-} , match
-u128 as lengthOf //	t
-{
-    3	: //	t
-Pad}
-// c
-//	t
-, }
-packet calculatedFrom
-{
-zchar[ // `tick` ""quote"" 'q'
-10
-]repeatCount
-    ,}")).
-Eval vm_compute in ("<<<M1343>>>" ++ check (runes_of_ascii "MetaData
-    int	{ zchar[  3 ] matchKey ,  zchar[ //	t
-3]
-    Pad, zchar tag
-    ,
-    f64  Z9_`u8 x,`
-, char[ 255 ] f32a ,	} packet
-string_{ @tag(
-    // @lengthOf(
-    42) match metadata as uint8x {
-    ""1"" : x_y_z [ ""\n""
-// c
+    `doc` , }
 //
-]
-:chars ,} //
-,	lengthOf// " ++ [27880; 37322]%N ++ runes_of_ascii "
-{
-    repeat
-i64 pack , repeat
-zchar[ 42
-] body ,//	t
-match metadata
+//
+, Packet @calculatedFrom( ""abc"" )
+,	@tag( 7
+) @lengthOf( crc )match crc  as Z9_{42
+    : u128 10: Packet
+    ,
+    ""packet"" : repeatCount[ """ ++ [128512]%N ++ runes_of_ascii """
+, ""abc""// " ++ [27880; 37322]%N ++ runes_of_ascii "
+] : u8x[
+    ""a\""b"" /// triple
+, 42
+]:  rootA
+,
+[ 007
+, ""1"" ,
+    //	t
+    """ ++ [233]%N ++ runes_of_ascii "t" ++ [233]%N ++ runes_of_ascii """ ] : chars
+    ,
+    }
+    , }	root  packet	u {
+    @calculatedFrom( ""CRC32"") _x
+@calculatedFrom(""\" ++ [233]%N ++ runes_of_ascii """), calculatedFrom lengthOf  ,@rightPad
+    (	)uint32 zchar
+@calculatedFrom( """ ++ [233]%N ++ runes_of_ascii "t" ++ [233]%N ++ runes_of_ascii """) , A,
+    } root packet int{
 // `tick` ""quote"" 'q'
-// trailing space 
-as Pad
-{
-1:u8x , [
-    ""packet"" ] : Logon  , ""{,}"" : Header ""1"":// " ++ [128512]%N ++ runes_of_ascii " emoji
-o ,""" ++ [233]%N ++ runes_of_ascii "t" ++ [233]%N ++ runes_of_ascii """ : leftPad ,
-    """ ++ [233]%N ++ runes_of_ascii "t" ++ [233]%N ++ runes_of_ascii """ :
-    As, }
-    , }
-    , @tag( 65535
+// `tick` ""quote"" 'q'
+char stringy `a\` , // trailing space 
+}
+    options {Z9_//	t
+= ""abc"";crc = ' '
+; matchKey
+= 00
+    ;}
+")).
+Eval vm_compute in ("<<<M739>>>" ++ check (runes_of_ascii "MetaData	roots {
+//
+// " ++ [27880; 37322]%N ++ runes_of_ascii "
+char[ //x
+00 ]
+    i8i8 // @lengthOf(
+,
+uint32
+    metadata
+`tab	here`// a // b
+, } options  {
+Header
+/// triple
+// a // b
+=
+    true metadata
+=
+    false Logon //x
+=	42 ; T =
+    // c
+    '\x00'Header
+    =// packet A { u8 x, }
+""\" ++ [233]%N ++ runes_of_ascii """
+} root // trailing space 
+packet // c
+uint8x
+    {char[]// @lengthOf(
+A`" ++ [233]%N ++ runes_of_ascii "`
+    ,@tag( 65535
+    ) uint32 i8i8 ,
+@rightPad( '0'
+    ) zchar[
+// c
+// " ++ [27880; 37322]%N ++ runes_of_ascii "
+0123456789 ]leftPad ,float32 leftPad , @tag(
+// a // b
+// `tick` ""quote"" 'q'
+42) @leftPad
+(
 )
-repeat// trailing space 
-uint8 chars
-,@tag(	3 ) @rightPad /// triple
-( ' ' ) @leftPad
-    ( ' ') u64 stringy
-//	t
-// @lengthOf(
-, @rightPad
-    ( ' ' ) repeat Header `line1
-line2` ,
-@rightPad( ' '
-)repeat string charz , } 	 ")).
-Eval vm_compute in ("<<<M3993>>>" ++ check (runes_of_ascii "packet options1 {
-    repeat matchKey `doc`,
-    char[] string_ `
-        `,// packet A { u8 x, }
-    uint16 T,
-    repeatCount _x,
+    /// triple
+    @tag( 0
+) string
+    f32a, @tag( 3
+) char[
+42]
+MetaDataX ,string repeatCount @lengthOf( Foo)`tab	here` ,	@lengthOf(A)repeat roots { repeat len stringy`it's` ,A { zchar[ 42
+] u128  @calculatedFrom( ""CRC32"" ) , } , char[]
+u128 , // " ++ [128512]%N ++ runes_of_ascii " emoji
+}  , @lengthOf(Z9_) u ,
+// c
+// " ++ [128512]%N ++ runes_of_ascii " emoji
+}	MetaData
+/// triple
+//
+len { float64 u8x ,
+char[]
+    //
+    Header , char[ 65535 ] chars`{ , }` ,
+}MetaData
+Pad {
+roots
+a1 , i64 // `tick` ""quote"" 'q'
+u128
+    ,
+    char[  255 ]	rootA , u16	packetx, i32 MetaDataX , u8 stringy
+    , }
+
+")).
+Eval vm_compute in ("<<<M694>>>" ++ check (runes_of_ascii "packet Logon { @leftPad('0' )
+    @calculatedFrom(	""CRC32"" )
+match x_y_z as calculatedFrom
+    {[
+// trailing space 
+// " ++ [128512]%N ++ runes_of_ascii " emoji
+65535 ,
+10 ]
+:asx 0 :	BodyLength
+,}
+//
+// a // b
+, @lengthOf(	metadata
+    )int16 leftPad , match charz
+as i8i8 { [
+    65535// a // b
+] :
+    repeatCount , ""CRC32""  : Packet
+    ,
+""a\""b""
+: Z9_ , 00 :
+    falsey , 7 :falsey ,
+}
+, // " ++ [27880; 37322]%N ++ runes_of_ascii "
+@lengthOf( body  )
+i32 i8i8
+`two words`,
+    @calculatedFrom( ""`tick`"") body
+    { zchar[ 0 ]BodyLength `doc`
+    ,  u
+`
+` , } ,@tag( 0123456789 ) @leftPad ( '\x00'  )@calculatedFrom(""a	b"" )
+    match As as x_y_z	{ """ ++ [128512]%N ++ runes_of_ascii """ :
+i64_, 0123456789:
+Foo
+,
+65535  :matchKey , 65535 :lengthOf 4294967296 // a // b
+:
+    f32a
+, },
+zchar[
+0] string_ @lengthOf( packetx ) `" ++ [233]%N ++ runes_of_ascii "`
+,@calculatedFrom( ""x y"" )
+    BodyLength { char[1 ] int,
+f32a
+    , repeat Pad	tag `say ""hi""` ,  } ,
+    //x
+    zchar[
+    // `tick` ""quote"" 'q'
+    0 ]
+    Foo
+@calculatedFrom(
+""// no comment""
+) ,
+@tag( 00 ) u16 roots `it's`
+,	}
+root packet roots
+{
+    }
+")).
+Eval vm_compute in ("<<<M3971>>>" ++ check (runes_of_ascii "MetaData o {
+    char[255] BodyLength,
 }
 
-packet msg_type {
-    @lengthOf(Pad)
-    asx @calculatedFrom(""\" ++ [233]%N ++ runes_of_ascii """),
-    @tag(4294967296)
-    Logon `a\`,
-    @tag(0)
-    crc @lengthOf(charz) `u8 x,`,
-    char[0] f32a,
-    u8 A `line1
-        line2`,
-    Z9_ u `{ , }`,
-    repeat uint8x `" ++ [28040; 24687; 31867; 22411]%N ++ runes_of_ascii "`,
-    int8 Packet @calculatedFrom(""{,}""),
+packet crc {
+    @tag(7)
+    calculatedFrom @lengthOf(Header),
+    len {
+        float {
+            i32 T,
+            stringy string_,
+            char[65535] Packet @lengthOf(a1) ``,
+            falsey {
+                u16 Logon `{ , }`,
+            },
+        },
+        repeat falsey,
+        repeat u8 Logon,
+    },
+    zchar[65535] lengthOf @lengthOf(asx) `line1
+    line2`,
+    @rightPad('0')
+    int16 f32a,
+    @rightPad('\x00')
+    char[] len `" ++ [28040; 24687; 31867; 22411]%N ++ runes_of_ascii "`,
+    match string_ as string_ {
+        [""a\\"", 10, 007, 0123456789] : As,
+        [""`tick`""] : metadata,
+        ""\n"" : falsey,
+        // `tick` ""quote"" 'q'
+        [3, """ ++ [233]%N ++ runes_of_ascii "t" ++ [233]%N ++ runes_of_ascii """, ""CRC32""] : lengthOf,
+        00 : x_y_z,
+    },
+    packetx {
+        repeat a1 `it's`,
+        stringy `{ , }`,
+        match T as MetaDataX {
+            ""CRC32"" : lengthOf,
+        },
+    },
 }
 
-packet A {
-    @tag(3)
-    @tag(1)
-    u16 A,
-    @tag(1)
-    match roots as pack {
-        // c
-        [""CRC32""] : i8i8,
-        ""a\\"" : trueish,
-        [""{,}"", """ ++ [28040; 24687]%N ++ runes_of_ascii """] : falsey,
-    },
-    @rightPad(' ')
-    int16 Packet `
-        `,// `tick` ""quote"" 'q'
-    repeat zchar[1] Pad,// a // b
-}")).
-Eval vm_compute in ("<<<M4269>>>" ++ check (runes_of_ascii "root packet T {
-    @tag(0)
-    u64 int,
-    match rootA as BodyLength {
-        ""it's"" : o,
-        10 : int,
-        ""packet"" : string_,
-        [
-            3, 0123456789, 007, 7, 3,
-            007, ""abc""
-        ] : int,
-    },
-    match i64_ as options1 {
-        0123456789 : zchar,
-        00 : pack,
-    },
-    match zchar as options1 {
-        ""it's"" : matchKey,
-        ""1"" : u128,
-        ""`tick`"" : trueish,
-        // packet A { u8 x, }
-        255 : crc,
-    },
+MetaData tag {
+    //x
 }
 
 packet Z9_ {
-    BodyLength @calculatedFrom(""x y"") `" ++ [28040; 24687; 31867; 22411]%N ++ runes_of_ascii "`,
-    @lengthOf(metadata)
-    repeat i8i8 zchar `" ++ [28040; 24687; 31867; 22411]%N ++ runes_of_ascii "`,
-    zchar[255] uint8x,
-    int8 Z9_ @calculatedFrom(""""),
-}// packet A { u8 x, }")).
-Eval vm_compute in ("<<<M4054>>>" ++ check (runes_of_ascii "packet Logon {
-    repeat char MetaDataX `say ""hi""`,
-    @lengthOf(packetx)
-    char[] repeatCount `doc`,
-    @leftPad('0')
-    @tag(7)
-    Header @calculatedFrom(""""),
-    @lengthOf(MetaDataX)
-    match x as Header {
-        ""x y"" : u8x,
-        """ ++ [128512]%N ++ runes_of_ascii """ : charz,
-        """ ++ [233]%N ++ runes_of_ascii "t" ++ [233]%N ++ runes_of_ascii """ : _x,
-        [3, 00] : uint8x,
-        ""it's"" : rootA,
-        [00, 65535] : zchar,
-    },
-    @calculatedFrom(""// no comment"")
-    int32 i64_,
-    repeat body {
-        zchar[10] BodyLength `line1
-        line2`,
-        lengthOf Logon,// @lengthOf(
-        repeat float64 i8i8,
-        char[0123456789] leftPad `
-        `,
-    },
-    repeat char[255] a1 `" ++ [28040; 24687; 31867; 22411]%N ++ runes_of_ascii "`,
+    i16 rootA `
+    `,//	t
 }")).
-Eval vm_compute in ("<<<M4065>>>" ++ check (runes_of_ascii "packet falsey {
-    @leftPad()
-    zchar[1] f32a,
-    _x {
-        int32 u128,
-        rootA,
-    },
-    @rightPad('\x00')
-    // " ++ [27880; 37322]%N ++ runes_of_ascii "
-    char matchKey,
-    @lengthOf(As)
-    match pack as BodyLength {
-        ""1"" : tag,
-        [65535] : msg_type,
-        [""`tick`""] : falsey,
-        ""// no comment"" : u128,
-    },// " ++ [128512]%N ++ runes_of_ascii " emoji
-    match len as Z9_ {
-        [10, ""a	b""] : Foo,
-        255 : int,
-        0123456789 : tag,
-        1 : metadata,
-        [00, 4294967296, """ ++ [28040; 24687]%N ++ runes_of_ascii """] : roots,
-        [42, 4294967296, 10, 00, 4294967296] : int,
-    },
-    @calculatedFrom(""{,}"")
-    repeat _x {
-        tag `doc`,
-    },
-}")).
-Eval vm_compute in ("<<<M4104>>>" ++ check (runes_of_ascii "packet Packet {
-    zchar[00] u @lengthOf(tag),
-    repeat string u8x `u8 x,`,
-    packetx {
-        repeat uint8 leftPad `doc`,
-    },// " ++ [27880; 37322]%N ++ runes_of_ascii "
-    @tag(0123456789)
-    char[] chars @lengthOf(rootA) `{ , }`,
-    uint8 Packet,
-    repeat a1 `two words`,
-    @calculatedFrom(""it's"")
-    string_ {
-        u16 A `crlf
-        line`,
-        repeat string uint8x,
-        string u128,
-    },
-}
-
-packet MetaDataX {
-    @tag(0123456789)
-    char[3] Packet,
-}
-
-MetaData repeatCount {
-}
-
-root packet u8x {
-    x_y_z @lengthOf(o) `two words`,// " ++ [27880; 37322]%N ++ runes_of_ascii "
-    repeat zchar[0123456789] len `" ++ [233]%N ++ runes_of_ascii "`,
-}")).
-Eval vm_compute in ("<<<M3546>>>" ++ check (runes_of_ascii "// top
-packet
-    // c0
-Sub // c1
-{ // c2a
-  // c2b
-u8 // c3a
-  // c3b
-a // c4a
-  // c4b
-, @calculatedFrom(
-    // c6
-""CRC16"" )
-    // c8
-i16 // c9a
-  // c9b
-SubSum // c10
-, } // c12
-root // c13a
-  // c13b
-packet Frame
-    // c15
-{ u16 // c17a
-  // c17b
-MsgType ,
-    // c19
-u16 // c20a
-  // c20b
-BodyLen
-    // c21
-@lengthOf(
-    // c22
-Body // c23
-) , // c25a
-  // c25b
-Sub
-    // c26
-Body , string // c29
-note , // c31
-@calculatedFrom(
-    // c32
-""CRC16"" ) // c34a
-  // c34b
-i16 Checksum , // c37
-u8 tail
-    // c39
-, // c40a
-  // c40b
-} ")).
-Eval vm_compute in ("<<<M36>>>" ++ check (runes_of_ascii "root packet
-leftPad { match roots as packetx{
-42 : chars, 255 : f32a , }
-    , @rightPad
-(	' ' ) // @lengthOf(
-charz
-    @lengthOf( packetx ) , i32 u8x  , uint8x
-, } root packet x_y_z { u64 packetx
-@lengthOf( stringy )
+Eval vm_compute in ("<<<M583>>>" ++ check (runes_of_ascii "root packet crc  { repeat zchar[ 3
+    // trailing space 
+    ] Header`u8 x,` ,  @leftPad( ' ' )
+char[]
+    string_ `say ""hi""` ,
+    @tag(
+4294967296) repeat  f32a {
+    MetaDataX { repeat u f32a
+    // trailing space 
+    ,  }
+,
+    } , char[ 3 ]	repeatCount //x
+`it's`,	@tag( 255) Packet `u8 x,`
+, @rightPad
+    ( // a // b
+) int32	i64_ `` ,@tag( 4294967296)i8
+    o`{ , }`
     ,
-    @leftPad// " ++ [27880; 37322]%N ++ runes_of_ascii "
-( ' '
-    ) // packet A { u8 x, }
-@rightPad ( '\x00'
-    ) // trailing space 
-@calculatedFrom(	""\" ++ [233]%N ++ runes_of_ascii """ ) uint8
-MetaDataX@lengthOf(
-    As
-    ) ,@lengthOf(
-rootA ) // c
-float64 uint8x`say ""hi""` ,@leftPad ( ' ' ) repeat float64 Pad ,
-    // packet A { u8 x, }
-    }
-")).
-Eval vm_compute in ("<<<M813>>>" ++ check (runes_of_ascii "root packet
-asx
-    { match float	as float { 10
-    :
-    Z9_,
-    [ 3,
-0 ] //	t
-: leftPad
-, 7 :
-    msg_type ,
-}, BodyLength roots
-, u32
-    len  `tab	here`, @tag(42
-) float64
-charz @lengthOf( float)
-    , u ,char[] T @calculatedFrom(
-    ""a	b"") `// not a comment` , BodyLength ,
-repeat MetaDataX
-    ,
-    @calculatedFrom(
-""CRC32"" )@calculatedFrom(
-// c
-//	t
-""packet"") @leftPad (// a // b
-'\x00' ) msg_type	@lengthOf(
+    @tag(4294967296 ) @calculatedFrom(""a\""b""
+) char[] trueish ,
+@lengthOf(u8x )i8i8
+    { metadata zchar ,
+repeat a1 {	Header , }
+,//
+As
+{ match Z9_ as matchKey {
+    ""packet""	:calculatedFrom , [ // @lengthOf(
+4294967296 , """ ++ [233]%N ++ runes_of_ascii "t" ++ [233]%N ++ runes_of_ascii """ , ""`tick`"" , 65535
+    , """ ++ [28040; 24687]%N ++ runes_of_ascii """ ,""// no comment"" ,  65535] : trueish
+    ,},
+    repeat metadata	{ repeat _x body `
+`	,  chars
+    MetaDataX `crlf
+line`
+    , uint16 // trailing space 
+u8x	@lengthOf(	As) `
+`  , }//	t
+, uint8
     /// triple
-    _x
-) ,} options{// c
-crc =
-    ""`tick`"" ; }")).
-Eval vm_compute in ("<<<M211>>>" ++ check (runes_of_ascii "packet leftPad
-    {  BodyLength
-{ // a // b
-rootA {
-char[ 00]
-leftPad,
-    // trailing space 
-    tag // " ++ [27880; 37322]%N ++ runes_of_ascii "
-@calculatedFrom( ""abc""
-    // " ++ [128512]%N ++ runes_of_ascii " emoji
-    ) , char[	42 ] // c
-len ,
-string MetaDataX  ,}, match Z9_ as A { ""1""  : x, ""packet"" // trailing space 
-: lengthOf	} , i64
-    // trailing space 
-    chars @lengthOf(	msg_type
-    ) `
-`
-, },zchar[ 3 //
-]  u128
-    @lengthOf(//	t
-packetx
-) , @leftPad ( '\x00'
-)char[] chars @calculatedFrom( ""`tick`"" ) //
-, }
-")).
-Eval vm_compute in ("<<<M337>>>" ++ check (runes_of_ascii "packet
-    // " ++ [128512]%N ++ runes_of_ascii " emoji
-    Header {	@calculatedFrom( """" ) @calculatedFrom(
-""" ++ [128512]%N ++ runes_of_ascii """ )  @calculatedFrom(
-""it's"" ) tag
-// trailing space 
-//
-{int32 repeatCount
-,f32a //
-@lengthOf(
-    BodyLength ) , calculatedFrom{ i64_
-    len, trueish @lengthOf( body ) `
-` , i64 f32a `u8 x,`, //x
-match  Foo as A { 007
-: options1
-//x
-/// triple
-,  255: charz ,""" ++ [233]%N ++ runes_of_ascii "t" ++ [233]%N ++ runes_of_ascii """ :zchar
-, ""`tick`""	:
-    u8x
-    ,  1 : len },}, } ,
-    repeat leftPad { uint32 packetx	`` , } // c
-, }")).
-Eval vm_compute in ("<<<M1163>>>" ++ check (runes_of_ascii "MetaData
-    uint8x {
-_x  stringy ,	i8i8
-_x, char[
-    1 ] a1
-    `it's` ,
-crc metadata
-,
-} packet Logon {/// triple
-repeat Logon stringy
-    , match falsey  as
-T/// triple
-{ [ 1  ]
-    :packetx 65535 : pack	, [ """ ++ [28040; 24687]%N ++ runes_of_ascii """
-, ""abc""] : metadata ,}// @lengthOf(
-,
-@calculatedFrom(	""x y""
-//	t
-//
-)repeat	len {lengthOf @calculatedFrom(
-""`tick`""), u8x msg_type,
+    f32a ,
 },
-    @calculatedFrom( ""\n"" ) repeat
-    // @lengthOf(
-    i64 BodyLength , }
-")).
-Eval vm_compute in ("<<<M1124>>>" ++ check (runes_of_ascii "MetaData
-    // `tick` ""quote"" 'q'
-    o { i64 crc , }
-packet falsey{	@tag( 0 )
-zchar @calculatedFrom(""x y"" ),crc // `tick` ""quote"" 'q'
-{
-char[ 7 ] Packet
-@lengthOf( asx ) , } ,
-@tag( 4294967296) @calculatedFrom(
-""" ++ [128512]%N ++ runes_of_ascii """ ) x_y_z trueish ,
-    @calculatedFrom(
-    ""\n"") // c
-falsey
-    Packet
-,float { T o
-    ,	zchar[ 4294967296 ]chars
-    , zchar[7] options1@calculatedFrom(  ""a\\"" ) ,
-repeat float32 Pad
-    , }
+    }
+, char[] Logon
 , }
 ")).
-Eval vm_compute in ("<<<M945>>>" ++ check (runes_of_ascii "root packet// trailing space 
-i64_ {@leftPad
-    ( '\x00'
-// a // b
-// `tick` ""quote"" 'q'
-)
-match roots  as A { [ ""\n""
-/// triple
-//
-,
-10 , 00
-    ] :asx ,} ,	zchar[
-1] body
-@calculatedFrom( ""abc"" ) `line1
-line2`// c
-, int8	Z9_ ,	u { falsey zchar ,
-    repeat uint16 a1
-,},repeat uint16 i64_ `crlf
-line`
-, pack  `crlf
-line`
-    , roots ,
-match u128 as o	{00: /// triple
-Header ,},repeat u A , }
-")).
-Eval vm_compute in ("<<<M1285>>>" ++ check (runes_of_ascii "
-options { A
-= ""it's""
-} options { }packet	pack {
-int16 zchar ,
-    @tag( 007 )@lengthOf( Pad
-)// trailing space 
-@leftPad ( ' '
-)match stringy as body{
-    [255 ,
-42
-, // " ++ [128512]%N ++ runes_of_ascii " emoji
-1
-    // trailing space 
-    , 00 ,
-    """",
-10
-, ""{,}"" ] :
-    repeatCount
-, [ 1 ] : x_y_z ,
-    ""`tick`""
+Eval vm_compute in ("<<<M974>>>" ++ check (runes_of_ascii "packet len { repeat char[ 0 ]
+leftPad`{ , }` ,
+@calculatedFrom( ""abc"" )  zchar[	65535
+    ]Z9_ @lengthOf( tag)
+`tab	here` , match
+u128 as packetx { [ ""it's"" ,
+""\" ++ [233]%N ++ runes_of_ascii """
+    ]:o , ""\n""
 :
-packetx, 7 : u128,
-    } // `tick` ""quote"" 'q'
-,u32 body@lengthOf(	stringy )
-, } 	 ")).
-Eval vm_compute in ("<<<M933>>>" ++ check (runes_of_ascii "packet chars { @lengthOf(As )// packet A { u8 x, }
-u128 Logon /// triple
-`line1
-line2`
-,
-//x
-// `tick` ""quote"" 'q'
-f32a
-, //x
-@rightPad  (
-    '\x00' )zchar[
-10] As
-    /// triple
-    `doc`, u8x
-    @lengthOf(
-// a // b
-//
-u128) ,
-    @lengthOf(	matchKey// @lengthOf(
-)@calculatedFrom(""CRC32""
-) @calculatedFrom( ""a\\"" ) repeat Z9_
-    // c
-    uint8x `u8 x,` , }")).
-Eval vm_compute in ("<<<M426>>>" ++ check (runes_of_ascii "
-options
-{A =' '_x
-='\x00' /// triple
-string_  =
-""it's""
-;
-// trailing space 
-// @lengthOf(
-}
-    options
-{ u8x //
-= ""it's""
-    ;
-lengthOf
-= true ; }packet matchKey	{
-    // trailing space 
-    char[ 65535 ]
-charz,
-// " ++ [128512]%N ++ runes_of_ascii " emoji
-//x
-uint8x , @leftPad
+    int  ""a\""b"" // a // b
+: As,
+""{,}"" : chars
+42 : T""1"" : packetx /// triple
+,}, x Pad
+    , int8 Pad
+`a\` ,
+chars a1
+    , char[ 0 ]
+Z9_@calculatedFrom( ""// no comment"" )
+    `" ++ [28040; 24687; 31867; 22411]%N ++ runes_of_ascii "`  ,  }
+    packet x_y_z	{ repeat
+    //	t
+    stringy x_y_z , }root
+packet charz { } // " ++ [128512]%N ++ runes_of_ascii " emoji
+root packet	x{ _x msg_type
+,@tag(
+    0123456789
+) i64  body
+    `two words`
+, @rightPad (
     // a // b
-    ('\x00') repeat tag Pad
-    , i32 i8i8
-@lengthOf(
-    MetaDataX)/// triple
-, }
-")).
-Eval vm_compute in ("<<<M748>>>" ++ check (runes_of_ascii "root packet BodyLength {
-    @rightPad ( '\x00'  )
-    repeat char[]len	`" ++ [233]%N ++ runes_of_ascii "`, int32	lengthOf `` //x
-, } root packet matchKey{repeat string u8x `line1
-line2` , Header// @lengthOf(
-{ u128 T
-, // trailing space 
-} , }
-packet
-uint8x{
-    @lengthOf(
-    Header
-)  a1@calculatedFrom( """" )
-    // `tick` ""quote"" 'q'
-    `" ++ [233]%N ++ runes_of_ascii "` ,
+    '\x00'
+    )
+@lengthOf(charz)
+//x
+// @lengthOf(
+zchar[
+    0123456789 ] stringy,repeat Packet
+    stringy , repeat A`tab	here` ,	@tag( 0)
+match asx as Pad {	[
+3,
+""" ++ [233]%N ++ runes_of_ascii "t" ++ [233]%N ++ runes_of_ascii """ , ""\n"" ,"""",
+    1
+, 1
+]: Packet 42
+    // c
+    : roots //	t
+},} options	{float
+    = true ;	} /// triple")).
+Eval vm_compute in ("<<<M759>>>" ++ check (runes_of_ascii "// @lengthOf(
+MetaData
+uint8x{ char[	42
+] packetx
+    ,} packet
+len {
+}MetaData	Logon
+{
+    matchKey u128 `
+`
+,
+    string
+MetaDataX`" ++ [233]%N ++ runes_of_ascii "` , }	MetaData
 //
-// " ++ [128512]%N ++ runes_of_ascii " emoji
-}")).
-Eval vm_compute in ("<<<M978>>>" ++ check (runes_of_ascii "packet
-    calculatedFrom
-{ @tag(
-// packet A { u8 x, }
-// trailing space 
-007
 //	t
-// " ++ [27880; 37322]%N ++ runes_of_ascii "
-)
+rootA {
+u32 i8i8 , }
+root packet i64_// `tick` ""quote"" 'q'
+{ u32
+    calculatedFrom
+// trailing space 
 /// triple
-// `tick` ""quote"" 'q'
-match
-charz as
+,	@tag(10)@rightPad
+    ( ) @leftPad(
+' ' ) uint16
+// c
+// " ++ [128512]%N ++ runes_of_ascii " emoji
+rootA ,
+@lengthOf(
+    //x
     Pad
-    {[	""a	b""  ,
-255 ]// c
-: a1, 0  :
-lengthOf
-    , 4294967296 : charz
-, [7 , ""a\\"" ,
-    """"
-,	007
-, """ ++ [233]%N ++ runes_of_ascii "t" ++ [233]%N ++ runes_of_ascii """ , """ ++ [28040; 24687]%N ++ runes_of_ascii """, 7 ]:// a // b
-trueish
-, ""\" ++ [233]%N ++ runes_of_ascii """
-    :
-    BodyLength
-}, }
+)
+    pack @calculatedFrom(	""x y"") `it's`
+    , uint8 matchKey ,@tag(
+1 // " ++ [128512]%N ++ runes_of_ascii " emoji
+) match Pad as  calculatedFrom
+    {
+[ ""\n"" ,
+7,  1 , """ ++ [233]%N ++ runes_of_ascii "t" ++ [233]%N ++ runes_of_ascii """ ] :len
+    00:Packet, } ,@lengthOf( string_
+    // @lengthOf(
+    )match matchKey as MetaDataX {
+[ ""`tick`""
+, 42 ,
+""x y"" ,
+""" ++ [233]%N ++ runes_of_ascii "t" ++ [233]%N ++ runes_of_ascii """ ,
+4294967296 ]
+    : o // packet A { u8 x, }
+,
+}
+    , uint8
+charz
+    @calculatedFrom( ""a	b"") ,
+    @calculatedFrom( ""a\""b"") repeat
+    u8x {pack , } ,
+}
 ")).
-Eval vm_compute in ("<<<M3550>>>" ++ check (runes_of_ascii "
-options  { LittleEndian 
-= true
-    ;
-
-}
-packet	Logon {
-u8 
-x,
-
-} 
+Eval vm_compute in ("<<<M708>>>" ++ check (runes_of_ascii "  packet roots {
+    @calculatedFrom(
+    ""CRC32"" // " ++ [128512]%N ++ runes_of_ascii " emoji
+) @tag(
+    42
+    )  Z9_ leftPad `line1
+line2`
+, @lengthOf( string_) @lengthOf(
+Packet )	@calculatedFrom(  ""// no comment""
+    )
+repeat
+chars len , @tag( //x
+42 )
+@tag( 3 )u8 u128 @lengthOf(	A
+) , char T ,@lengthOf(
+    charz )// `tick` ""quote"" 'q'
+zchar lengthOf, repeat zchar[ 00 ] A
+    ,char[ 4294967296 ] leftPad
+`u8 x,` , @tag( 4294967296
+    ) @tag(
+    //	t
+    007)
+    repeat char[
+    65535 ]
+float
+// packet A { u8 x, }
+//
+`two words`
+    , } packet crc {msg_type @lengthOf(chars	) , string//	t
+chars
+@lengthOf(
+u128 ) ,int64 Header ,match lengthOf//	t
+as pack { [ 255
+,
+""packet"" ]
+// c
+// " ++ [27880; 37322]%N ++ runes_of_ascii "
+:i64_// packet A { u8 x, }
+,//x
+1: u }
+, trueish @lengthOf( packetx
+) , charz @lengthOf( packetx), }
+")).
+Eval vm_compute in ("<<<M4494>>>" ++ check (runes_of_ascii "packet pack {
+    @lengthOf(charz)
+    repeat int64 x_y_z,
+    @calculatedFrom(""abc"")
+    Z9_ {
+        options1 @lengthOf(i64_),
+        string stringy `tab	here`,
+    },
+    @rightPad()
+    chars uint8x `" ++ [233]%N ++ runes_of_ascii "`,
+    @tag(1)
+    match asx as string_ {
+        00 : Header,
+        [
+            42, 1, ""\" ++ [233]%N ++ runes_of_ascii """, """ ++ [233]%N ++ runes_of_ascii "t" ++ [233]%N ++ runes_of_ascii """, 255,
+            """ ++ [128512]%N ++ runes_of_ascii """
+        ] : chars,
+        // trailing space 
+        """ ++ [28040; 24687]%N ++ runes_of_ascii """ : rootA,
+        [
+            0123456789, 4294967296, ""x y"", 7, ""\" ++ [233]%N ++ runes_of_ascii """,
+            10, ""{,}"", 1
+        ] : lengthOf,
+    },
+    @calculatedFrom(""packet"")
+    zchar[65535] Foo `two words`,
+    repeat zchar[255] msg_type,
+    @lengthOf(rootA)
+    char x @lengthOf(x_y_z),
+    @tag(255)
+    @calculatedFrom(""{,}"")
+    int64 Packet `
+    `,
+    Foo,
+}")).
+Eval vm_compute in ("<<<M592>>>" ++ check (runes_of_ascii "options
+{ len=int8 /// triple
+Header
+= '0' ; } packet
+options1 { @calculatedFrom( ""{,}"" ) repeat//
+body , } packet uint8x {  repeat int8 f32a
+,} packet	As {
+    match	u128 as
+    o { 0  :
+    len ,
+    // c
+    }, @calculatedFrom( """" )  zchar // @lengthOf(
+As , zchar[00] u8x	, @lengthOf(u8x )match	stringy as o
+    { [
+    ""1"" , ""\" ++ [233]%N ++ runes_of_ascii """ ]// " ++ [128512]%N ++ runes_of_ascii " emoji
+: repeatCount ,  [ 7,
+    // " ++ [27880; 37322]%N ++ runes_of_ascii "
+    3
+, ""1""
+, 007
+, ""\n"" , 0]
+    : metadata,//	t
+""it's"" : o
+,  00
+    : roots
+, 4294967296 :
+    uint8x  , } , @calculatedFrom(""it's""
+)
+@tag(3 ) int @lengthOf( int ) , char[] asx @calculatedFrom( ""a\""b"" ) `a\` , int16	charz,
+    //	t
+    string x_y_z@lengthOf( int	) `a\`
+    , i64 o
+,} root
+    packet zchar { }
+")).
+Eval vm_compute in ("<<<M3875>>>" ++ check (runes_of_ascii "packet As {
+    @lengthOf(chars)
+    @leftPad(' ')
+    string leftPad @lengthOf(_x),
+    @tag(00)
+    match A as falsey {
+        // `tick` ""quote"" 'q'
+        0 : i64_,
+        [
+            ""x y"", ""a\""b"", ""it's"", ""x y"", 007,
+            ""a	b""
+        ] : roots,
+        65535 : stringy,
+    },
+    zchar[4294967296] string_ `it's`,
+    int16 Logon `it's`,
+    @calculatedFrom(""" ++ [233]%N ++ runes_of_ascii "t" ++ [233]%N ++ runes_of_ascii """)
+    repeat char[] stringy `a\`,
+    repeat char[3] crc,
+    @lengthOf(msg_type)
+    x {
+        u8x int `two words`,
+        i8i8 _x `
+                `,
+        int8 Logon @lengthOf(Pad),
+    },
+    @tag(1)
+    i64 string_ @calculatedFrom(""\" ++ [233]%N ++ runes_of_ascii """),// packet A { u8 x, }
+    char[] Foo,
+}")).
+Eval vm_compute in ("<<<M419>>>" ++ check (runes_of_ascii "// `tick` ""quote"" 'q'
 packet
-Logout {u16
-
-reason ,
+    A {
+// `tick` ""quote"" 'q'
+// c
+repeat lengthOf // " ++ [128512]%N ++ runes_of_ascii " emoji
+{ As
+metadata,match pack as// @lengthOf(
+As {[ 7 ]://x
+int
+,""it's"" : i64_ ,""a\""b"": // " ++ [27880; 37322]%N ++ runes_of_ascii "
+string_ ,
+    [ 00 , 4294967296 , ""{,}"" , """ ++ [233]%N ++ runes_of_ascii "t" ++ [233]%N ++ runes_of_ascii """ ,
+""" ++ [233]%N ++ runes_of_ascii "t" ++ [233]%N ++ runes_of_ascii """
+, ""abc"",
+1
+, 1]
+: Pad
+    // @lengthOf(
+    } , leftPad x
+// @lengthOf(
+//x
+`" ++ [28040; 24687; 31867; 22411]%N ++ runes_of_ascii "` ,
+char[ 65535
+    ]metadata ,}
+    ,
+}packet	a1 {
+} packet//x
+pack
+{ int {i64_  x_y_z,// " ++ [128512]%N ++ runes_of_ascii " emoji
+u8x `say ""hi""` ,f32 A
+    `u8 x,`  ,} ,
 }
-	root packet Frame {i64
-Kind
-,	i64
+    root packet falsey { @tag( 255) repeat float64
+Logon
+    ,
+float64
+Foo @lengthOf( float )  , } options{ matchKey
+    // packet A { u8 x, }
+    = char[] ; tag =' ' ; i64_=
+""1"" }
+")).
+Eval vm_compute in ("<<<M1015>>>" ++ check (runes_of_ascii "packet asx	{ options1 @calculatedFrom(
+    """ ++ [128512]%N ++ runes_of_ascii """ )
+,A // " ++ [128512]%N ++ runes_of_ascii " emoji
+u, char[ 1 ]body,
+} MetaData u // a // b
+{
+    zchar[ // packet A { u8 x, }
+1 // @lengthOf(
+]	options1 ,
+    } packet falsey {repeat
+Foo { zchar[4294967296 // " ++ [27880; 37322]%N ++ runes_of_ascii "
+]  charz
+@lengthOf(
+    roots )
+// @lengthOf(
+//	t
+,} //	t
+, float , @lengthOf(	u8x )
+    @calculatedFrom(
+    ""{,}"" ) @leftPad	( '0'
+)repeat	u128
+    MetaDataX  `u8 x,` , @tag( 255 )@rightPad // a // b
+()
+    repeat calculatedFrom{ repeat string f32a // trailing space 
+, match
+// " ++ [27880; 37322]%N ++ runes_of_ascii "
+// " ++ [128512]%N ++ runes_of_ascii " emoji
+_x as x {""a	b""
+    : A , }, float32 zchar `
+` , string string_//x
+`line1
+line2` , } ,
+}
+")).
+Eval vm_compute in ("<<<M3912>>>" ++ check (runes_of_ascii "packet	// a // b
+      u8x {	// a // b
+	len
+{
+    o
+roots
 
-    Kind2,match Kind as  Body{ 1  : Logon
+    ,match
 
-,	[
-
-    2 
-,3  ,
-
-    4
-	]: 
-Logout
-,100: Logon
-
-    ,}  ,
-match
-Kind2
+string_  // c
 as
 
-    Trailer
-    {0 
-: Logout,
+    repeatCount 
+{
+    [
+	""`tick`"" ,  """ ++ [128512]%N ++ runes_of_ascii """	,  // " ++ [128512]%N ++ runes_of_ascii " emoji
+  7 ,""" ++ [233]%N ++ runes_of_ascii "t" ++ [233]%N ++ runes_of_ascii """ ,
+10 ,
+	""packet""
 
+    ,
+""\" ++ [233]%N ++ runes_of_ascii """]
+
+    : roots	,
+	[  10
+,	1] :	leftPad , } ,
+    // c
+  	// c
+  u T  // packet A { u8 x, }
+	,	zchar[ 3  // a // b
+		]
+	float`" ++ [28040; 24687; 31867; 22411]%N ++ runes_of_ascii "`
+,
+},}
+MetaData
+	asx	{ zchar[	10
+
+]
+BodyLength , roots
+
+tag
+	,  }  MetaData zchar { uint64 chars 
+`" ++ [28040; 24687; 31867; 22411]%N ++ runes_of_ascii "`
+    ,char[]  Logon
+, Packet o
+	`crlf
+line`,  falsey
+float
+,
+	// @lengthOf(
+    char[]
+	uint8x
+
+,int
+
+    A
+
+    `it's`,
+
+    } ")).
+Eval vm_compute in ("<<<M539>>>" ++ check (runes_of_ascii "
+root
+packet
+packetx {
+charz `" ++ [233]%N ++ runes_of_ascii "`
+    // " ++ [27880; 37322]%N ++ runes_of_ascii "
+    , float64 x @calculatedFrom( ""// no comment""
+)
+    `{ , }`
+// packet A { u8 x, }
+/// triple
+,
+}
+packet crc{ }packet x {
+@tag(10)@rightPad ('\x00' ) repeat uint32 Z9_
+    `
+`, @lengthOf(
+rootA ) @calculatedFrom(
+    // @lengthOf(
+    ""{,}"" // " ++ [128512]%N ++ runes_of_ascii " emoji
+)
+    stringy // c
+``, @leftPad ( '0'
+    )
+@lengthOf( i64_ ) @lengthOf( zchar	) repeat zchar[0123456789]body,
+//	t
+// @lengthOf(
+@rightPad (	)
+    @lengthOf( leftPad )
+@leftPad (  '\x00' )string
+zchar // @lengthOf(
+@lengthOf( T ) , } //	t")).
+Eval vm_compute in ("<<<M4478>>>" ++ check (runes_of_ascii "packet u8x {
+    match BodyLength as string_ {
+        // c
+        ""\" ++ [233]%N ++ runes_of_ascii """ : zchar,
+    },
 }
 
-,}
+packet metadata {
+    // `tick` ""quote"" 'q'
+    @tag(0123456789)
+    /// triple
+    @leftPad('\x00')
+    repeat char[] trueish,
+    repeat metadata {
+        char[] float `line1
+                line2`,
+        char[00] T,
+        uint8x {
+            repeat len string_ `doc`,
+        },
+        options1 @lengthOf(T) `say ""hi""`,
+    },
+    @calculatedFrom(""CRC32"")
+    uint16 BodyLength @calculatedFrom(""" ++ [28040; 24687]%N ++ runes_of_ascii """),
+}//	t")).
+Eval vm_compute in ("<<<M3814>>>" ++ check (runes_of_ascii "root packet roots {
+}
 
+packet As {
+    @calculatedFrom(""" ++ [28040; 24687]%N ++ runes_of_ascii """)
+    i16 msg_type `" ++ [28040; 24687; 31867; 22411]%N ++ runes_of_ascii "`,
+    repeat repeatCount {
+        repeat pack msg_type `crlf
+                line`,//
+        match repeatCount as _x {
+            ""`tick`"" : trueish,
+            // c
+            [""\n"", 65535, 255, ""abc"", 0123456789] : options1,
+        },//x
+    },
+}
+
+// trailing space 
+//
+MetaData x_y_z {
+    options1 chars,
+    int32 leftPad `{ , }`,
+    string i64_ `say ""hi""`,
+    int32 BodyLength `a\`,
+}")).
+Eval vm_compute in ("<<<M3934>>>" ++ check (runes_of_ascii "packet f32a {
+}
+
+packet trueish {
+    @rightPad()
+    rootA @lengthOf(Pad),
+    @tag(0)
+    Logon @lengthOf(trueish),
+    As `
+        `,
+    repeat int8 Logon,
+    @tag(255)
+    // `tick` ""quote"" 'q'
+    char A,
+    i64 Header,
+    match Z9_ as falsey {
+        65535 : x_y_z,
+        ""CRC32"" : float,
+    },
+    i8 len,
+    @tag(7)
+    // `tick` ""quote"" 'q'
+    repeat rootA x_y_z,
+    @tag(00)
+    zchar[007] x_y_z `a\`,
+}
+
+MetaData roots {
+}// `tick` ""quote"" 'q'")).
+Eval vm_compute in ("<<<M1158>>>" ++ check (runes_of_ascii "packet// a // b
+crc {@rightPad ( '0') int@calculatedFrom(""\n"" ) ,
+o// trailing space 
+, Header
+`say ""hi""`	, @lengthOf( asx
+// " ++ [27880; 37322]%N ++ runes_of_ascii "
+//
+)
+    // c
+    repeat packetx
+{  match uint8x
+    as o { 65535 /// triple
+:
+    _x// trailing space 
+42 : x,  }, } ,repeat x_y_z	, char[ 00 ] crc@lengthOf(
+    Z9_
+)
+    , u8x
+    {uint32
+float
+    `" ++ [28040; 24687; 31867; 22411]%N ++ runes_of_ascii "`
+, string_
+    `
+`, zchar[ 65535] u , falsey
+    @lengthOf( MetaDataX) ,
+    //
+    } ,string A `two words`  , }")).
+Eval vm_compute in ("<<<M129>>>" ++ check (runes_of_ascii "root packet options1
+{ @lengthOf(	msg_type ) Logon @lengthOf( packetx )`
+` , As  {
+repeat	T
+`
+`
+    ,float64 Foo	`crlf
+line`
+//x
+// a // b
+,repeat repeatCount x_y_z`a\` ,	int8 msg_type
+,
+    } , // `tick` ""quote"" 'q'
+msg_type @lengthOf( body ) , u64 rootA @calculatedFrom(
+""" ++ [128512]%N ++ runes_of_ascii """
+    ) ,@calculatedFrom(""packet""	) i32
+    Header ,	uint32 BodyLength @lengthOf(
+trueish //x
+)
+, @lengthOf(
+f32a ) f32
+    Z9_ `{ , }`, } // a // b")).
+Eval vm_compute in ("<<<M863>>>" ++ check (runes_of_ascii "packet // " ++ [27880; 37322]%N ++ runes_of_ascii "
+u8x{  u64
+    metadata `a\`,  @tag(  65535 ) @rightPad(
+    )	repeat
+int16 As
+    , @rightPad ( )
+match	lengthOf as body {7 :
+// @lengthOf(
+// @lengthOf(
+chars	,  [ 255 ,
+""// no comment"" ,
+    //x
+    0123456789
+,""\n""
+    , 7 ,	""a	b"" ] :
+    x_y_z , ""abc"":
+metadata
+} , } packet
+    lengthOf{char[] // " ++ [128512]%N ++ runes_of_ascii " emoji
+As
+@calculatedFrom(	""a\\"" )
+// " ++ [128512]%N ++ runes_of_ascii " emoji
+// `tick` ""quote"" 'q'
+`a\`
+    //
+    , }
+// c
 ")).
-Eval vm_compute in ("<<<M3722>>>" ++ check (runes_of_ascii "options {
-    A = ' '
-    _x = '\x00'/// triple
-    string_ = ""it's"";
+Eval vm_compute in ("<<<M905>>>" ++ check (runes_of_ascii "options{ Foo
+    // " ++ [27880; 37322]%N ++ runes_of_ascii "
+    = ' ' ; //
+calculatedFrom =
+'\x00' ; Logon//x
+= 0 //
+x=
+    '\x00' ; // packet A { u8 x, }
+} packet
+    _x	{
+@calculatedFrom( """ ++ [28040; 24687]%N ++ runes_of_ascii """  ) repeat int32 Z9_, Pad packetx , @lengthOf(
+u128  )
+    @tag( 1 ) match msg_type as
+    x
+{
+    // @lengthOf(
+    [
+""" ++ [233]%N ++ runes_of_ascii "t" ++ [233]%N ++ runes_of_ascii """]
+    :x , } // " ++ [27880; 37322]%N ++ runes_of_ascii "
+,@lengthOf(	a1
+    // " ++ [128512]%N ++ runes_of_ascii " emoji
+    ) leftPad
+// a // b
+//x
+As , i8i8
+_x
+    ,
+    } // " ++ [128512]%N ++ runes_of_ascii " emoji")).
+Eval vm_compute in ("<<<M1260>>>" ++ check (runes_of_ascii "root packet
+roots { i8i8
+@calculatedFrom( ""abc"" ) , repeat uint32 matchKey `doc` , char[255 ]
+A @lengthOf( calculatedFrom
+) `{ , }` // c
+,
+crc//x
+{ A Header `
+` , char[] o ,repeat zchar[ 1
+]//x
+body
+`" ++ [233]%N ++ runes_of_ascii "` ,//	t
+}, int8 u ,
+    match packetx as	u
+{ [ /// triple
+0
+    // a // b
+    , ""`tick`"" ]:
+Packet//
+,""\" ++ [233]%N ++ runes_of_ascii """
+    /// triple
+    : Packet, [
+4294967296 ]
+: matchKey,}
+    ,}
+")).
+Eval vm_compute in ("<<<M4089>>>" ++ check (runes_of_ascii "packet body {
+}
+
+packet Foo {
+    int @lengthOf(x),
+    float32 len `" ++ [28040; 24687; 31867; 22411]%N ++ runes_of_ascii "`,
+    repeat f32a Packet,
+    i8 stringy @calculatedFrom(""// no comment"") `line1
+        line2`,
+    @tag(0)
+    match u as falsey {
+        [10, 3, ""`tick`"", 42, 3] : Pad,
+        7 : repeatCount,
+        0 : Foo,
+    },
+}
+
+MetaData Packet {
+    string u,
 }
 
 options {
-    u8x = ""it's"";
-    lengthOf = true;
+    uint8x = true;
+}")).
+Eval vm_compute in ("<<<M1056>>>" ++ check (runes_of_ascii "options {
+}packet crc // " ++ [27880; 37322]%N ++ runes_of_ascii "
+{ calculatedFrom{ zchar[7
+    ] Logon , // @lengthOf(
+trueish
+rootA `say ""hi""`
+// `tick` ""quote"" 'q'
+/// triple
+, repeat
+    // packet A { u8 x, }
+    calculatedFrom Z9_ , repeat
+MetaDataX { repeat // " ++ [27880; 37322]%N ++ runes_of_ascii "
+char[] int ,
+},
+    }
+, rootA @calculatedFrom(
+""it's""
+    )
+, match
+    charz as body
+{0123456789: chars ,
+} ,
 }
-
-packet matchKey {
+")).
+Eval vm_compute in ("<<<M4293>>>" ++ check (runes_of_ascii "packet T {
+    matchKey Header,
+    //
+    /// triple
+    zchar[3] a1,
+    // packet A { u8 x, }
     // trailing space 
-    char[65535] charz,
-    // " ++ [128512]%N ++ runes_of_ascii " emoji
-    //x
-    uint8x,
-    @leftPad('\x00')
-    repeat tag Pad,
-    i32 i8i8 @lengthOf(MetaDataX),
-}")).
-Eval vm_compute in ("<<<M265>>>" ++ check (runes_of_ascii "MetaData x { char[]crc , char[7 ]float, u64 //	t
-f32a	,}
-    packet
-int
-    {Pad/// triple
-@lengthOf(Pad )
-`{ , }`, }
-    MetaData
-/// triple
-//
-T {
-A
-i8i8`it's` ,
-u8x options1 , roots zchar // `tick` ""quote"" 'q'
-,	int16 u8x , char[] a1
-`say ""hi""`, char
-//	t
-/// triple
-Pad ,
-    } // a // b")).
-Eval vm_compute in ("<<<M1575>>>" ++ check (runes_of_ascii "root packet Foo // " ++ [128512]%N ++ runes_of_ascii " emoji
-{ } options {
-    // a // b
-    tag // `tick` ""quote"" 'q'
-= //	t
-""""
-    ; u8x = zchar[0  ] }
-MetaData
-    int {zchar[ 10]
-lengthOf	`` , i64 u8x`// not a comment` ,MetaDataX pack// `tick` ""quote"" 'q'
-`crlf
-line`
-, , Logon charz `crlf
-line`
-    ,
-    // a // b
-    }
-")).
-Eval vm_compute in ("<<<M1446>>>" ++ check (runes_of_ascii "root packet Foo // " ++ [128512]%N ++ runes_of_ascii " emoji
-{ } options {
-    // a // b
-    = // `tick` ""quote"" 'q'
-tag //	t
-""""
-    ; u8x = zchar[0  ] }
-MetaData
-    int {zchar[ 10]
-lengthOf	`` , i64 u8x`// not a comment` ,MetaDataX pack// `tick` ""quote"" 'q'
-`crlf
-line`
-, Logon charz `crlf
-line`
-    ,
-    // a // b
-    }
-")).
-Eval vm_compute in ("<<<M4018>>>" ++ check (runes_of_ascii "options {
-    // c1a
-    // c1b
-    FixedStringPadChar = '0';// c5
 }
 
-packet Q {
-    zchar[4] z,
-    @rightPad('\x00')
-    // c18
-    char[3] n,
-    // c23
-    char[5] d,// c28a
-}// c29a
+MetaData matchKey {
+    // " ++ [27880; 37322]%N ++ runes_of_ascii "
+    f64 f32a `two words`,
+    zchar[255] Logon `{ , }`,
+    zchar[1] calculatedFrom,
+    msg_type MetaDataX `{ , }`,
+    a1 lengthOf `say ""hi""`,
+}
 
-// c29b
-root packet R {
-    // c33a
-    // c33b
-    Q,
-    zchar[8] top,// c40
-    repeat zchar[2] zs,
+root packet pack {
+    x int,
 }")).
-Eval vm_compute in ("<<<M1419>>>" ++ check (runes_of_ascii "root packet  // " ++ [128512]%N ++ runes_of_ascii " emoji
-{ } options {
-    // a // b
-    tag // `tick` ""quote"" 'q'
-= //	t
-""""
-    ; u8x = zchar[0  ] }
-MetaData
-    int {zchar[ 10]
-lengthOf	`` , i64 u8x`// not a comment` ,MetaDataX pack// `tick` ""quote"" 'q'
-`crlf
-line`
-, Logon charz `crlf
-line`
-    ,
-    // a // b
-    }
-")).
-Eval vm_compute in ("<<<M1434>>>" ++ check (runes_of_ascii "root packet Foo // " ++ [128512]%N ++ runes_of_ascii " emoji
-{ }  {
-    // a // b
-    tag // `tick` ""quote"" 'q'
-= //	t
-""""
-    ; u8x = zchar[0  ] }
-MetaData
-    int {zchar[ 10]
-lengthOf	`` , i64 u8x`// not a comment` ,MetaDataX pack// `tick` ""quote"" 'q'
-`crlf
-line`
-, Logon charz `crlf
-line`
-    ,
-    // a // b
-    }
-")).
-Eval vm_compute in ("<<<M578>>>" ++ check (runes_of_ascii "packet chars
-    {  rootA i64_
-, @calculatedFrom(
-    ""1"" ) len @lengthOf(A )`two words`
-,repeat float32 leftPad
-    ,
-match	Z9_ as Pad{
-[
-""" ++ [28040; 24687]%N ++ runes_of_ascii """ // a // b
-, ""\" ++ [233]%N ++ runes_of_ascii """	,	00 ,  10 ] : As
-, }  ,
-    }MetaData matchKey {
-    leftPad uint8x`a\` , body x_y_z  ,} packet
-    tag
-{}")).
-Eval vm_compute in ("<<<M766>>>" ++ check (runes_of_ascii "root packet // trailing space 
-crc { @lengthOf(
-//	t
+Eval vm_compute in ("<<<M1082>>>" ++ check (runes_of_ascii "  options{ } options	{ x
+=true }
+    MetaData uint8x
+{ i8i8 u8x `tab	here` , char[
+0123456789
+    ] calculatedFrom  `` , float64 uint8x
+    , charz
+    options1
+,} options { i8i8 = char[	007 ]
 // " ++ [27880; 37322]%N ++ runes_of_ascii "
-i8i8 )@tag( 42 ) @calculatedFrom( ""CRC32"" )
-//	t
-//x
-repeat x uint8x ,	zchar[
+// " ++ [27880; 37322]%N ++ runes_of_ascii "
+;
+    } options
+    { options1 ='\x00'; // packet A { u8 x, }
+zchar= '\x00' //
+string_ //x
+=//
+""" ++ [128512]%N ++ runes_of_ascii """
+;
+body='0' } 	 ")).
+Eval vm_compute in ("<<<M4093>>>" ++ check (runes_of_ascii "
+options
+
+{ 
+uint8x 
+=""{,}"" 
+  // `tick` ""quote"" 'q'
+
+  // " ++ [128512]%N ++ runes_of_ascii " emoji
+	;
+
+    } packet
+
+    asx
+
+    {	match
+    f32a	as msg_type {""{,}""
+
+: int
+
+[ 
+""" ++ [233]%N ++ runes_of_ascii "t" ++ [233]%N ++ runes_of_ascii """
+
+,""a\\"" ,3
+    , """ ++ [128512]%N ++ runes_of_ascii """ ,1,""a\""b""  ,
+    """ ++ [128512]%N ++ runes_of_ascii """
+
+    ]
+
+    : repeatCount , } 
+, string
+Z9_  `{ , }`
+
+    ,u128 {
+	char[]Packet ,	}
+, 	 //	t
+    	} ")).
+Eval vm_compute in ("<<<M1557>>>" ++ check (runes_of_ascii "root packet Foo // " ++ [128512]%N ++ runes_of_ascii " emoji
+{ } options {
     // a // b
-    0 ]x_y_z @lengthOf(
-    stringy ), As trueish ,
-} // " ++ [27880; 37322]%N ++ runes_of_ascii "
-root// packet A { u8 x, }
-packet chars{
-    } // " ++ [27880; 37322]%N)).
-Eval vm_compute in ("<<<M4012>>>" ++ check (runes_of_ascii "packet crc {
-    // " ++ [128512]%N ++ runes_of_ascii " emoji
-    int `" ++ [28040; 24687; 31867; 22411]%N ++ runes_of_ascii "`,
-    repeat Header `doc`,
-    @tag(65535)
-    leftPad BodyLength `// not a comment`,/// triple
-    char[42] roots ``,
-}
-
-packet uint8x {
-    @lengthOf(i8i8)
-    // trailing space 
-    //	t
-    Pad MetaDataX,
-}")).
-Eval vm_compute in ("<<<M600>>>" ++ check (runes_of_ascii "MetaData Header
-{ uint64 lengthOf , int32 packetx , matchKey u8x `say ""hi""`,char[]
-T , packetx options1 , Packet falsey ,} // @lengthOf(
-options// c
-{ u128
-//x
-// " ++ [128512]%N ++ runes_of_ascii " emoji
-=65535	Foo
-    = true } /// triple
-packet int{ }MetaData
-    u {}
-
-")).
-Eval vm_compute in ("<<<M920>>>" ++ check (runes_of_ascii "packet len
-    { repeat
-metadata
-    ,}
-root packet
-string_ { @calculatedFrom(""\n""	)  i16 Z9_ @calculatedFrom(
-    // a // b
-    ""a\\"") // packet A { u8 x, }
-,
-metadata @calculatedFrom( ""CRC32"")//
-`u8 x,`,f64 options1 // " ++ [27880; 37322]%N ++ runes_of_ascii "
-,	} 	 ")).
-Eval vm_compute in ("<<<M2346>>>" ++ check (runes_of_ascii "MetaData Packet { }packet	asx  { @lengthOf( asx) falsey`crlf
-line`
-,
-    }
-    packet x	{uint32// @lengthOf(
-rootA	,u32 options1 `say ""hi""` , @tag( 7
-    )// packet A { u8 x, }
-msg_type msg_type @lengthOf(
-stringy	)	, }
-
-")).
-Eval vm_compute in ("<<<M2288>>>" ++ check (runes_of_ascii "MetaData Packet { }packet	asx  { @lengthOf( asx) falsey`crlf
-line`
-,
-    }
-    packet zchar[	{uint32// @lengthOf(
-rootA	,u32 options1 `say ""hi""` , @tag( 7
-    )// packet A { u8 x, }
-msg_type @lengthOf(
-stringy	)	, }
-
-")).
-Eval vm_compute in ("<<<M2326>>>" ++ check (runes_of_ascii "MetaData Packet { }packet	asx  { @lengthOf( asx) falsey`crlf
-line`
-,
-    }
-    packet x	{uint32// @lengthOf(
-rootA	,u32 options1 `say ""hi""` , , @tag( 7
-    )// packet A { u8 x, }
-msg_type @lengthOf(
-stringy	)	, }
-
-")).
-Eval vm_compute in ("<<<M2232>>>" ++ check (runes_of_ascii "MetaData Packet { }asx	packet  { @lengthOf( asx) falsey`crlf
-line`
-,
-    }
-    packet x	{uint32// @lengthOf(
-rootA	,u32 options1 `say ""hi""` , @tag( 7
-    )// packet A { u8 x, }
-msg_type @lengthOf(
-stringy	)	, }
-
-")).
-Eval vm_compute in ("<<<M2225>>>" ++ check (runes_of_ascii "MetaData Packet { packet	asx  { @lengthOf( asx) falsey`crlf
-line`
-,
-    }
-    packet x	{uint32// @lengthOf(
-rootA	,u32 options1 `say ""hi""` , @tag( 7
-    )// packet A { u8 x, }
-msg_type @lengthOf(
-stringy	)	, }
-
-")).
-Eval vm_compute in ("<<<M2219>>>" ++ check (runes_of_ascii "MetaData as { }packet	asx  { @lengthOf( asx) falsey`crlf
-line`
-,
-    }
-    packet x	{uint32// @lengthOf(
-rootA	,u32 options1 `say ""hi""` , @tag( 7
-    )// packet A { u8 x, }
-msg_type @lengthOf(
-stringy	)	, }
-
-")).
-Eval vm_compute in ("<<<M2268>>>" ++ check (runes_of_ascii "MetaData Packet { }packet	asx  { @lengthOf( asx) falsey i32
-,
-    }
-    packet x	{uint32// @lengthOf(
-rootA	,u32 options1 `say ""hi""` , @tag( 7
-    )// packet A { u8 x, }
-msg_type @lengthOf(
-stringy	)	, }
-
-")).
-Eval vm_compute in ("<<<M1304>>>" ++ check (runes_of_ascii "packet
-    u8x { int32 o
-    , }  options {//x
-options1 =
-    10
-    // a // b
-    Header
-= 1// " ++ [27880; 37322]%N ++ runes_of_ascii "
-;	lengthOf = '\x00'; } root packet // packet A { u8 x, }
-falsey { @lengthOf( Header ) Foo
-`" ++ [28040; 24687; 31867; 22411]%N ++ runes_of_ascii "` ,}")).
-Eval vm_compute in ("<<<M827>>>" ++ check (runes_of_ascii "packet _x{Pad``, f32 roots , i8 // " ++ [27880; 37322]%N ++ runes_of_ascii "
-pack, @lengthOf(
-    roots	)repeat
-zchar[	65535 ] int,
-@lengthOf( u8x )
-repeat int16
-msg_type , } // @lengthOf(
+    tag // `tick` ""quote"" 'q'
+= //	t
+""""
+    ; u8x = zchar[0  ] }
 MetaData
-BodyLength {char[] _x `doc`
+    int {zchar[ 10]
+lengthOf	`` , i64 u8x`// not a comment` repeat MetaDataX pack// `tick` ""quote"" 'q'
+`crlf
+line`
+, Logon charz `crlf
+line`
+    ,
+    // a // b
+    }
+")).
+Eval vm_compute in ("<<<M1615>>>" ++ check (runes_of_ascii "root packet Foo // " ++ [128512]%N ++ runes_of_ascii " emoji
+{ } options {
+    // a // b
+    tag // `tick` ""quote"" 'q'
+= //	t
+""""
+    ; u8x'1' = zchar[0  ] }
+MetaData
+    int {zchar[ 10]
+lengthOf	`` , i64 u8x`// not a comment` ,MetaDataX pack// `tick` ""quote"" 'q'
+`crlf
+line`
+, Logon charz `crlf
+line`
+    ,
+    // a // b
+    }
+")).
+Eval vm_compute in ("<<<M1476>>>" ++ check (runes_of_ascii "root packet Foo // " ++ [128512]%N ++ runes_of_ascii " emoji
+{ } options {
+    // a // b
+    tag // `tick` ""quote"" 'q'
+= //	t
+""""
+    ; u8x = 0 zchar[  ] }
+MetaData
+    int {zchar[ 10]
+lengthOf	`` , i64 u8x`// not a comment` ,MetaDataX pack// `tick` ""quote"" 'q'
+`crlf
+line`
+, Logon charz `crlf
+line`
+    ,
+    // a // b
+    }
+")).
+Eval vm_compute in ("<<<M1502>>>" ++ check (runes_of_ascii "root packet Foo // " ++ [128512]%N ++ runes_of_ascii " emoji
+{ } options {
+    // a // b
+    tag // `tick` ""quote"" 'q'
+= //	t
+""""
+    ; u8x = zchar[0  ] }
+MetaData
+    i32 {zchar[ 10]
+lengthOf	`` , i64 u8x`// not a comment` ,MetaDataX pack// `tick` ""quote"" 'q'
+`crlf
+line`
+, Logon charz `crlf
+line`
+    ,
+    // a // b
+    }
+")).
+Eval vm_compute in ("<<<M1484>>>" ++ check (runes_of_ascii "root packet Foo // " ++ [128512]%N ++ runes_of_ascii " emoji
+{ } options {
+    // a // b
+    tag // `tick` ""quote"" 'q'
+= //	t
+""""
+    ; u8x = zchar[0   }
+MetaData
+    int {zchar[ 10]
+lengthOf	`` , i64 u8x`// not a comment` ,MetaDataX pack// `tick` ""quote"" 'q'
+`crlf
+line`
+, Logon charz `crlf
+line`
+    ,
+    // a // b
+    }
+")).
+Eval vm_compute in ("<<<M1572>>>" ++ check (runes_of_ascii "root packet Foo // " ++ [128512]%N ++ runes_of_ascii " emoji
+{ } options {
+    // a // b
+    tag // `tick` ""quote"" 'q'
+= //	t
+""""
+    ; u8x = zchar[0  ] }
+MetaData
+    int {zchar[ 10]
+lengthOf	`` , i64 u8x`// not a comment` ,MetaDataX pack// `tick` ""quote"" 'q'
+@rightPad
+, Logon charz `crlf
+line`
+    ,
+    // a // b
+    }
+")).
+Eval vm_compute in ("<<<M341>>>" ++ check (runes_of_ascii "options { leftPad
+    = 1
+    ;	leftPad= char[]
+    // c
+    MetaDataX = false// @lengthOf(
+u =
+'\x00'roots =10
+} packet
+A { char[
+    // packet A { u8 x, }
+    10] o ,  match  a1 as T {
+// @lengthOf(
+//	t
+65535 :	Z9_ 0 : _x ,} ,	}
+    packet
+    Foo {repeat i64_ `two words`//
 , }
 ")).
-Eval vm_compute in ("<<<M3425>>>" ++ check (runes_of_ascii "// top
-packet
-    // c0
-Inner { // c2a
-  // c2b
-u8 a // c4a
-  // c4b
-, } root
-    // c7
-packet // c8a
-  // c8b
-P // c9
-{ // c10
-Inner ref_obj , u8 x
-    // c15
-,
-    // c16
-}
-    // c17
-")).
-Eval vm_compute in ("<<<M162>>>" ++ check (runes_of_ascii "packet float {// a // b
-@lengthOf(
-    T ) repeat charz
-    {
-    // c
-    packetx @calculatedFrom( """ ++ [28040; 24687]%N ++ runes_of_ascii """)
-    `" ++ [233]%N ++ runes_of_ascii "` // " ++ [27880; 37322]%N ++ runes_of_ascii "
-, char[
-4294967296 //x
-]Header	,  }
-    , } /// triple")).
-Eval vm_compute in ("<<<M295>>>" ++ check (runes_of_ascii "options{zchar
-=7 ;
-// c
-// packet A { u8 x, }
-msg_type =	uint8 falsey =	1 ;
-}
-    MetaData  Pad// @lengthOf(
-{ f64	u `tab	here`
-,// a // b
-}	options {
-    }
-// " ++ [128512]%N ++ runes_of_ascii " emoji
-")).
-Eval vm_compute in ("<<<M1243>>>" ++ check (runes_of_ascii "
-packet string_{metadata
-// a // b
-/// triple
-@lengthOf(	T), @lengthOf( x ) Logon @calculatedFrom( """"
-)
-, @calculatedFrom( ""a	b""
-) x_y_z
-    `say ""hi""` ,
-    }
-")).
-Eval vm_compute in ("<<<M963>>>" ++ check (runes_of_ascii "root packet int
-{  trueish @calculatedFrom(  ""it's"" )
-    `doc` , string T
-`crlf
-line`, repeat rootA {match chars as tag{ [  """ ++ [233]%N ++ runes_of_ascii "t" ++ [233]%N ++ runes_of_ascii """
-] :	uint8x,
-} , } , }
-")).
-Eval vm_compute in ("<<<M1528>>>" ++ check (runes_of_ascii "root packet Foo // " ++ [128512]%N ++ runes_of_ascii " emoji
+Eval vm_compute in ("<<<M1602>>>" ++ check (runes_of_ascii "root packet Foo // " ++ [128512]%N ++ runes_of_ascii " emoji
 { } options {
     // a // b
     tag // `tick` ""quote"" 'q'
@@ -1963,338 +1635,645 @@ Eval vm_compute in ("<<<M1528>>>" ++ check (runes_of_ascii "root packet Foo // "
 """"
     ; u8x = zchar[0  ] }
 MetaData
-    int {zchar[ 10]")).
-Eval vm_compute in ("<<<M1396>>>" ++ check (runes_of_ascii "root packet  BodyLength
-{
-}// `tick` ""quote"" 'q'
-root
-    // `tick` ""quote"" 'q'
-    packet f32a// c
-{
-@leftPad ( '0')
-    //
-    int8	Z9_	,}
-
+    int {zchar[ 10]
+lengthOf	`` , i64 u8x`// not a comment` ,MetaDataX pack// `tick` ""quote"" 'q'
+`crlf
+line`
+, Logon charz `crlf
+line`
+    ,")).
+Eval vm_compute in ("<<<M65>>>" ++ check (runes_of_ascii "packet
+    BodyLength { repeat char[
+    1 ]
+options1
+`it's`
+// c
+// " ++ [128512]%N ++ runes_of_ascii " emoji
+, x_y_z{
+    packetx @lengthOf(zchar ) `tab	here` , repeat _x a1 ,
+} , } packet roots{ // `tick` ""quote"" 'q'
+}	options  { Foo	=char[ 1] // " ++ [27880; 37322]%N ++ runes_of_ascii "
+;charz
+=
+1
+; Packet = ""`tick`"" }
+//x
 ")).
-Eval vm_compute in ("<<<M1078>>>" ++ check (runes_of_ascii "MetaData u128 { char[ 3
-] leftPad
-, char[] u8x	`{ , }` ,Header i8i8 , } options {
+Eval vm_compute in ("<<<M464>>>" ++ check (runes_of_ascii "MetaData _x
+    { BodyLength string_ `crlf
+line`,
+//x
+//x
+i64
     //
-    crc	= ""// no comment""asx
-= ""CRC32"" ;
+    zchar , calculatedFrom MetaDataX ,float32 Pad `it's`
+,
+    } packet As{
+    repeat//	t
+metadata BodyLength
+`a\` ,	string
+Packet`two words`
+/// triple
+// `tick` ""quote"" 'q'
+, }")).
+Eval vm_compute in ("<<<M788>>>" ++ check (runes_of_ascii "  root
+packet i64_ {
+    @calculatedFrom( ""\n"") repeat// packet A { u8 x, }
+uint32	BodyLength ,@leftPad /// triple
+( ' ' // @lengthOf(
+) i32
+falsey@lengthOf( i64_  )//x
+`line1
+line2`  , @rightPad
+    ( ) repeat int64 int`" ++ [233]%N ++ runes_of_ascii "` ,
     }
+// " ++ [27880; 37322]%N ++ runes_of_ascii "
 ")).
-Eval vm_compute in ("<<<M1634>>>" ++ check (runes_of_ascii "root packet /// triple
-rootA rootA {	i32
-MetaDataX@calculatedFrom( ""CRC32"" ) `line1
-line2` , } MetaData BodyLength {
-u8
-rootA, } // c")).
-Eval vm_compute in ("<<<M1700>>>" ++ check (runes_of_ascii "root packet /// triple
-rootA {	i32
-MetaDataX@calculatedFrom( ""CRC32"" ) `line1
-line2` , } MetaData BodyLength {
-""a\\""
-rootA, } // c")).
-Eval vm_compute in ("<<<M1730>>>" ++ check (runes_of_ascii "root pac#ket /// triple
-rootA {	i32
-MetaDataX@calculatedFrom( ""CRC32"" ) `line1
-line2` , } MetaData BodyLength {
-u8
-rootA, } // c")).
-Eval vm_compute in ("<<<M1637>>>" ++ check (runes_of_ascii "root packet /// triple
-rootA 	i32
-MetaDataX@calculatedFrom( ""CRC32"" ) `line1
-line2` , } MetaData BodyLength {
-u8
-rootA, } // c")).
-Eval vm_compute in ("<<<M1642>>>" ++ check (runes_of_ascii "root packet /// triple
-rootA {	
-MetaDataX@calculatedFrom( ""CRC32"" ) `line1
-line2` , } MetaData BodyLength {
-u8
-rootA, } // c")).
-Eval vm_compute in ("<<<M1872>>>" ++ check (runes_of_ascii "packet
-    Pad // a // b
-{ i8i8 @calculatedFrom( ""a	b"") `u8 x,` ,
-} options{ float// " ++ [128512]%N ++ runes_of_ascii " emoji
-= f64 i64_
-=//	t
-00 float64
-")).
-Eval vm_compute in ("<<<M1195>>>" ++ check (runes_of_ascii "options /// triple
-{ tag =char[ 00 ]
-; } root
-    packet
+Eval vm_compute in ("<<<M4126>>>" ++ check (runes_of_ascii "MetaData Packet {
+}
+
+packet asx {
+    @lengthOf(asx)
+    falsey `crlf
+        line`,
+}
+
+packet x {
     // @lengthOf(
-    Header { /// triple
-repeat  packetx , }
+    rootA,
+    u32 options1 `say ""hi""`,
+    @tag(7)
+    // packet A { u8 x, }
+    msg_type @lengthOf(stringy),
+}")).
+Eval vm_compute in ("<<<M2356>>>" ++ check (runes_of_ascii "MetaData Packet { }packet	asx  { @lengthOf( asx) falsey`crlf
+line`
+,
+    }
+    packet x	{uint32// @lengthOf(
+rootA	,u32 options1 `say ""hi""` , @tag( 7
+    )// packet A { u8 x, }
+msg_type @lengthOf(
+stringy stringy	)	, }
+
 ")).
-Eval vm_compute in ("<<<M3966>>>" ++ check (runes_of_ascii "
-packet A
-    {
-    match k
+Eval vm_compute in ("<<<M870>>>" ++ check (runes_of_ascii "
+MetaData MetaDataX { stringy chars , Z9_ Foo ,
+}options
+{ }// " ++ [27880; 37322]%N ++ runes_of_ascii "
+packet x_y_z{ } packet
+stringy { uint64 packetx  , o , metadata // c
+MetaDataX  , repeat float32 len// `tick` ""quote"" 'q'
+, i64_
+,	}
+    options
+{ }")).
+Eval vm_compute in ("<<<M2363>>>" ++ check (runes_of_ascii "MetaData Packet { }packet	asx  { @lengthOf( asx) falsey`crlf
+line`
+,
+    }
+    packet x	{uint32// @lengthOf(
+rootA	,u32 options1 `say ""hi""` , @tag( 7
+    )// packet A { u8 x, }
+msg_type @lengthOf(
+stringy	as	, }
 
-as
-n {
+")).
+Eval vm_compute in ("<<<M2307>>>" ++ check (runes_of_ascii "MetaData Packet { }packet	asx  { @lengthOf( asx) falsey`crlf
+line`
+,
+    }
+    packet x	{uint32// @lengthOf(
+rootA	u32, options1 `say ""hi""` , @tag( 7
+    )// packet A { u8 x, }
+msg_type @lengthOf(
+stringy	)	, }
 
-    [  ""a""
+")).
+Eval vm_compute in ("<<<M2360>>>" ++ check (runes_of_ascii "MetaData Packet { }packet	asx  { @lengthOf( asx) falsey`crlf
+line`
+,
+    }
+    packet x	{uint32// @lengthOf(
+rootA	,u32 options1 `say ""hi""` , @tag( 7
+    )// packet A { u8 x, }
+msg_type @lengthOf(
+stringy		, }
 
+")).
+Eval vm_compute in ("<<<M2260>>>" ++ check (runes_of_ascii "MetaData Packet { }packet	asx  { @lengthOf( asx) `crlf
+line`
+,
+    }
+    packet x	{uint32// @lengthOf(
+rootA	,u32 options1 `say ""hi""` , @tag( 7
+    )// packet A { u8 x, }
+msg_type @lengthOf(
+stringy	)	, }
+
+")).
+Eval vm_compute in ("<<<M4399>>>" ++ check (runes_of_ascii "
+
+  packet
+	As	{u128 MetaDataX ,
+    char[
+
+3]
+    falsey
     ,
-
-""bb""
-    ,  ""c c"" ]
-    :
-B
-
-    2 
-: C
 
 }
 
-    ,  } ")).
-Eval vm_compute in ("<<<M1812>>>" ++ check (runes_of_ascii "packet
+options { falsey 
+    /// triple
+	=
+""it's"" 
+;
+    }
+
+    MetaData  a1  {  u8x
+A ,
+    matchKey
+_x
+
+    `" ++ [28040; 24687; 31867; 22411]%N ++ runes_of_ascii "`,
+
+string T
+    ,	} ")).
+Eval vm_compute in ("<<<M895>>>" ++ check (runes_of_ascii "
+packet zchar {	@rightPad (
+) repeat char[]leftPad	, @calculatedFrom(""{,}"" )
+    u ,
+i64_ @calculatedFrom( ""// no comment"" ),
+    // c
+    }
+// packet A { u8 x, }
+// " ++ [128512]%N ++ runes_of_ascii " emoji
+packet lengthOf{ }
+")).
+Eval vm_compute in ("<<<M4227>>>" ++ check (runes_of_ascii "
+options	{ 
+  // trailing space 
+		A =
+' ';
+calculatedFrom
+        // c
+
+  // a // b
+
+  =""a\""b""
+    ;
+    msg_type= char[
+
+4294967296]
+    ; 
+    //
+  rootA
+	='\x00'msg_type
+
+=
+false }
+")).
+Eval vm_compute in ("<<<M3879>>>" ++ check (runes_of_ascii "  root packet  Packet  // packet A { u8 x, }
+	{
+
+leftPad
+
+    As,
+	char[]
+string_
+, }
+    MetaData
+    x
+{  a1 u128
+`u8 x,` , 
+        // a // b
+      // packet A { u8 x, }
+	}")).
+Eval vm_compute in ("<<<M3651>>>" ++ check (runes_of_ascii "// @lengthOf(
+MetaData u {
+    char[] float,
+    u8 leftPad `
+    `,
+    // a // b
+    // a // b
+    metadata string_,
+    char[] Header,
+    zchar[0123456789] a1 `
+    `,
+}")).
+Eval vm_compute in ("<<<M4005>>>" ++ check (runes_of_ascii "packet f32a {
+    @calculatedFrom(""\" ++ [233]%N ++ runes_of_ascii """)
+    @calculatedFrom(""" ++ [128512]%N ++ runes_of_ascii """)
+    @lengthOf(int)
+    u8x @calculatedFrom(""\" ++ [233]%N ++ runes_of_ascii """),
+    float32 leftPad `doc`,
+    crc MetaDataX `" ++ [233]%N ++ runes_of_ascii "`,
+}")).
+Eval vm_compute in ("<<<M4342>>>" ++ check (runes_of_ascii "
+packet
+i8i8//x
+    	{
+
+    int16 // trailing space 
+
+stringy // " ++ [128512]%N ++ runes_of_ascii " emoji
+@calculatedFrom(
+""// no comment""
+
+    ) ,
+    }
+
+    packet _x
+    {
+
+    } ")).
+Eval vm_compute in ("<<<M422>>>" ++ check (runes_of_ascii "options { chars = ""abc"" ;}
+    packet string_
+{uint8x
+x_y_z ,string
+Header`
+` , } packet pack// a // b
+{ Z9_
+@lengthOf( chars
+    ) /// triple
+`" ++ [233]%N ++ runes_of_ascii "` ,}
+")).
+Eval vm_compute in ("<<<M1373>>>" ++ check (runes_of_ascii "packet
+As { char[
+0123456789]
+    repeatCount
+    // `tick` ""quote"" 'q'
+    , u32 _x `// not a comment` , @tag( 3 )repeat i64 len `say ""hi""`,  }
+")).
+Eval vm_compute in ("<<<M4513>>>" ++ check (runes_of_ascii "packet	A  {	match
+k as n{	[ 
+1
+, 
+22
+	,
+
+007 
+,
+
+    4,	5,
+
+66
+    ,
+	7
+    ,
+	8
+
+,
+	9
+	, 
+10	, 11
+
+    ,
+
+12  ] :
+	B 2
+
+    : 
+C },  }")).
+Eval vm_compute in ("<<<M1658>>>" ++ check (runes_of_ascii "root packet /// triple
+rootA {	i32
+MetaDataX@calculatedFrom( ""CRC32"" ""CRC32"" ) `line1
+line2` , } MetaData BodyLength {
+u8
+rootA, } // c")).
+Eval vm_compute in ("<<<M3390>>>" ++ check (runes_of_ascii "// top
+MetaData // c0
+_x // c1
+{ // c2
+zchar[ // c3
+4294967296 // c4
+] // c5
+lengthOf // c6
+`// not a comment` // c7
+, // c8
+} // c9
+")).
+Eval vm_compute in ("<<<M1693>>>" ++ check (runes_of_ascii "root packet /// triple
+rootA {	i32
+MetaDataX@calculatedFrom( ""CRC32"" ) `line1
+line2` , } MetaData BodyLength { {
+u8
+rootA, } // c")).
+Eval vm_compute in ("<<<M1674>>>" ++ check (runes_of_ascii "root packet /// triple
+rootA {	i32
+MetaDataX@calculatedFrom( ""CRC32"" ) `line1
+line2` } , MetaData BodyLength {
+u8
+rootA, } // c")).
+Eval vm_compute in ("<<<M3983>>>" ++ check (runes_of_ascii "packet A {
+    match k as n {
+        [
+            1, 22, ""c c"", 4, 5,
+            ""f""
+        ] : B,
+        2 : C,
+    },
+}")).
+Eval vm_compute in ("<<<M4420>>>" ++ check (runes_of_ascii "  packet B
+{
+u8 
+a,
+}  root packet
+	P{ 
+u8 K
+
+, match  K  as  Body
+	{
+
+1
+: B
+,
+    }
+    , 
+u16 L @lengthOf(
+
+Body 
+),
+}
+
+")).
+Eval vm_compute in ("<<<M1657>>>" ++ check (runes_of_ascii "root packet /// triple
+rootA {	i32
+MetaDataX@calculatedFrom(  ) `line1
+line2` , } MetaData BodyLength {
+u8
+rootA, } // c")).
+Eval vm_compute in ("<<<M1647>>>" ++ check (runes_of_ascii "root packet /// triple
+rootA {	i32
+@calculatedFrom( ""CRC32"" ) `line1
+line2` , } MetaData BodyLength {
+u8
+rootA, } // c")).
+Eval vm_compute in ("<<<M1891>>>" ++ check (runes_of_ascii "packet
     Pad // a // b
-{ i8i8 @calculatedFrom( ""a	b""`u8 x,` ) ,
+{ " ++ [127]%N ++ runes_of_ascii "i8i8 @calculatedFrom( ""a	b"") `u8 x,` ,
 } options{ float// " ++ [128512]%N ++ runes_of_ascii " emoji
 = f64 i64_
 =//	t
 00 }
 ")).
-Eval vm_compute in ("<<<M2309>>>" ++ check (runes_of_ascii "MetaData Packet { }packet	asx  { @lengthOf( asx) falsey`crlf
-line`
-,
-    }
-    packet x	{uint32// @lengthOf(
-rootA")).
-Eval vm_compute in ("<<<M4102>>>" ++ check (runes_of_ascii "
-packet
+Eval vm_compute in ("<<<M1857>>>" ++ check (runes_of_ascii "packet
+    Pad // a // b
+{ i8i8 @calculatedFrom( ""a	b"") `u8 x,` ,
+} options{ float// " ++ [128512]%N ++ runes_of_ascii " emoji
+= f64 =
+i64_//	t
+00 }
+")).
+Eval vm_compute in ("<<<M624>>>" ++ check (runes_of_ascii "packet Packet { uint8 options1	`a\` ,@rightPad
+    (
+    '0') u16 // packet A { u8 x, }
+x_y_z
+    `crlf
+line` ,
+}
+")).
+Eval vm_compute in ("<<<M4485>>>" ++ check (runes_of_ascii "packet
+Logon  { @tag(
+    42	)
 
-B
-	{
-u8 a
+// c
+  	@rightPad ( ' ' ) @leftPad()
 
-, 
-string  s 
-,	}root  packet
-	P 
-{
-    u16
+repeat
+    trueish
 
-L
+{  string	T	,
 
-    @lengthOf(
-
-B )	,B
-    ,
-
-u8
-t , 
 }
 
-")).
-Eval vm_compute in ("<<<M2999>>>" ++ check (runes_of_ascii "packet A {
-  match k as n {
-    [""a"", ""bb"", 007, ""d"", ""e"", 66, ""g"", ""h"", 9, ""j"", ""k"", 12] : B,
-    2 : C
-  },
-}")).
-Eval vm_compute in ("<<<M2995>>>" ++ check (runes_of_ascii "packet A {
-  match k as n {
-    [""a"", 22, ""c c"", 4, ""e"", 66, ""g"", 8, ""i"", 10, ""k"", 12] : B,
-    2 : C
-  },
-}")).
-Eval vm_compute in ("<<<M616>>>" ++ check (runes_of_ascii "packet
-msg_type { @rightPad ( )	@leftPad ('\x00' ) @rightPad// @lengthOf(
-(
-'\x00'  )  rootA
-    ``, }
-")).
-Eval vm_compute in ("<<<M3350>>>" ++ check (runes_of_ascii "packet calculatedFrom { @tag( 4294967296 )
-// c
-u msg_type , char[ 3 ] crc @lengthOf( len ) `u8 x,` , }")).
-Eval vm_compute in ("<<<M1982>>>" ++ check (runes_of_ascii "root
-packet crc
-    { f32a @calculatedFrom( @calculatedFrom( """ ++ [233]%N ++ runes_of_ascii "t" ++ [233]%N ++ runes_of_ascii """ )
-    `say ""hi""`, lengthOf `` ,  }")).
-Eval vm_compute in ("<<<M697>>>" ++ check (runes_of_ascii "options
-{ tag = 42 }root packet
-pack { zchar[ 007
-// `tick` ""quote"" 'q'
-// @lengthOf(
-]	Packet , }")).
-Eval vm_compute in ("<<<M3259>>>" ++ check (runes_of_ascii "packet Logon { @tag( 42 ) @rightPad ( ' ' ) @leftPad ( ) repeat trueish { string T , } , }
-// c
-")).
-Eval vm_compute in ("<<<M3232>>>" ++ check (runes_of_ascii "packet Logon { @tag( 42 ) @rightPad ( ' ' // c
-) @leftPad ( ) repeat trueish { string T , } , }")).
-Eval vm_compute in ("<<<M878>>>" ++ check (runes_of_ascii "options {  chars = 10  MetaDataX= 3 ;Header
-    =//x
-zchar[ 7 ]x_y_z = """";
-    i64_ =' ' ; }
-
-")).
-Eval vm_compute in ("<<<M521>>>" ++ check (runes_of_ascii "options { i8i8 = ""// no comment"" ; o
-=
-    '0'
-    Header
-='0' ; a1 =
-    zchar[
-    1
-] }
-")).
-Eval vm_compute in ("<<<M2959>>>" ++ check (runes_of_ascii "packet A {
-  match k as n {
-    [1, 22, ""c c"", 4, 5, ""f"", 7, 8, ""i""] : B
-    2 : C
-  },
-}")).
-Eval vm_compute in ("<<<M3267>>>" ++ check (runes_of_ascii "// top
-options
-    // c0
-{
-    // c1
-u8x
-    // c2
-=
-    // c3
-3
-    // c4
-}
-    // c5
-")).
-Eval vm_compute in ("<<<M1993>>>" ++ check (runes_of_ascii "root
-packet crc
-    { f32a @calculatedFrom( """ ++ [233]%N ++ runes_of_ascii "t" ++ [233]%N ++ runes_of_ascii """ `say ""hi""`
-    ), lengthOf `` ,  }")).
-Eval vm_compute in ("<<<M1079>>>" ++ check (runes_of_ascii "MetaData packetx { zchar[
-42 //	t
-] uint8x `doc`
-    , uint16
-string_`two words`,}")).
-Eval vm_compute in ("<<<M2933>>>" ++ check (runes_of_ascii "packet A {
-  match k as n {
-    [1, 22, ""c c"", 4, 5, ""f"", 7] : B
-    2 : C
-  },
-}")).
-Eval vm_compute in ("<<<M3323>>>" ++ check (runes_of_ascii "packet o { @tag( 42 ) repeat x { char[ 0123456789 ] i64_ , }
-// c
-, } options { }")).
-Eval vm_compute in ("<<<M946>>>" ++ check (runes_of_ascii "
-MetaData As
-    { } // @lengthOf(
-MetaData  crc {
-float64 lengthOf `it's` , }")).
-Eval vm_compute in ("<<<M201>>>" ++ check (runes_of_ascii "packet A { Logon {
-    repeat  char[ 42 ]falsey `a\`  ,repeat int32 T , } ,}")).
-Eval vm_compute in ("<<<M1984>>>" ++ check (runes_of_ascii "root
-packet crc
-    { f32a char[ """ ++ [233]%N ++ runes_of_ascii "t" ++ [233]%N ++ runes_of_ascii """ )
-    `say ""hi""`, lengthOf `` ,  }")).
-Eval vm_compute in ("<<<M4121>>>" ++ check (runes_of_ascii "packet
-    A
-{
-
-    u8  x
-    ,}// a
-// b
-  packet
-	B	{ } // c
-  // d")).
-Eval vm_compute in ("<<<M3395>>>" ++ check (runes_of_ascii "MetaData // c
-_x { zchar[ 4294967296 ] lengthOf `// not a comment` , }")).
-Eval vm_compute in ("<<<M3633>>>" ++ check (runes_of_ascii "  packet
-A {
-B	b`a
-b`
-	,
-
-    B	`a
-b`
 ,
-	repeat B bs`a
-b`	,}
 
+}
 ")).
-Eval vm_compute in ("<<<M1032>>>" ++ check (runes_of_ascii "options { Logon
-=
-    /// triple
-    4294967296 metadata = """ ++ [28040; 24687]%N ++ runes_of_ascii """ }
-")).
-Eval vm_compute in ("<<<M2872>>>" ++ check (runes_of_ascii "packet A {
-  match k as n {
-    [1, 22, 007] : B,
-    2 : C
-  },
+Eval vm_compute in ("<<<M3010>>>" ++ check (runes_of_ascii "packet A {
+    u16 len @lengthOf(body) `a
+b`,
+    u32 crc @calculatedFrom(""CRC32"") `a
+b`,
+    string body,
 }")).
-Eval vm_compute in ("<<<M2923>>>" ++ check (runes_of_ascii "packet A { Inner { match k as n { [1,22,007,4,5,66] : B, }, }, }")).
-Eval vm_compute in ("<<<M112>>>" ++ check (runes_of_ascii "options { calculatedFrom  =// `tick` ""quote"" 'q'
-""packet""; }
+Eval vm_compute in ("<<<M3976>>>" ++ check (runes_of_ascii "
+
+  options {
+matchKey =
+
+0
+
+    BodyLength=uint64 
+; pack
+
+=
+""1"" ;
+
+f32a
+
+=
+    i64 
+Foo
+	= 
+""a	b"" 
+} ")).
+Eval vm_compute in ("<<<M3376>>>" ++ check (runes_of_ascii "packet calculatedFrom { @tag( 4294967296 ) u msg_type , char[ 3 ] crc @lengthOf( len ) `u8 x,` , }
+// c
 ")).
-Eval vm_compute in ("<<<M3893>>>" ++ check (runes_of_ascii "
-packet
-A
+Eval vm_compute in ("<<<M3357>>>" ++ check (runes_of_ascii "packet calculatedFrom { @tag( 4294967296 ) u msg_type , char[ // c
+3 ] crc @lengthOf( len ) `u8 x,` , }")).
+Eval vm_compute in ("<<<M4425>>>" ++ check (runes_of_ascii "packet
+
+    lengthOf
 	{
 
-@tag( 
-1
+}
+root packet  i64_ 
+{ char[]
 
-    ) @tag(
-    2
-	)
-u8 
-x ,
-	}
-")).
-Eval vm_compute in ("<<<M4206>>>" ++ check (runes_of_ascii "// c
-      MetaData
+BodyLength  @lengthOf(
 
-    zchar {  zchar[  3
-	] 
-Pad
-
+Header
+	)	`doc` 
 ,}
 ")).
-Eval vm_compute in ("<<<M1948>>>" ++ check (runes_of_ascii "
-packet	As { @calculatedFrom(//x
-""{,}""	)lengthO" ++ [0]%N ++ runes_of_ascii "f , } 	 ")).
-Eval vm_compute in ("<<<M1905>>>" ++ check (runes_of_ascii "
-packet	As  @calculatedFrom(//x
-""{,}""	)lengthOf , } 	 ")).
-Eval vm_compute in ("<<<M377>>>" ++ check (runes_of_ascii "// " ++ [27880; 37322]%N ++ runes_of_ascii "
-MetaData u128 {  char[
-    3 ] f32a `doc` , }")).
-Eval vm_compute in ("<<<M3785>>>" ++ check (runes_of_ascii "packet x_y_z {
-    i8 As @calculatedFrom(""a	b""),
+Eval vm_compute in ("<<<M1691>>>" ++ check (runes_of_ascii "root packet /// triple
+rootA {	i32
+MetaDataX@calculatedFrom( ""CRC32"" ) `line1
+line2` , } MetaData")).
+Eval vm_compute in ("<<<M4225>>>" ++ check (runes_of_ascii "packet
+	A
+{
+    match k as
+n {  [  ""a""
+
+    ,  ""bb""
+,
+
+""c c"",
+""d"" ]
+: B	2: C
+
+    }
+, }
+")).
+Eval vm_compute in ("<<<M3233>>>" ++ check (runes_of_ascii "packet Logon { @tag( 42 ) @rightPad ( ' '
+// c
+) @leftPad ( ) repeat trueish { string T , } , }")).
+Eval vm_compute in ("<<<M1463>>>" ++ check (runes_of_ascii "root packet Foo // " ++ [128512]%N ++ runes_of_ascii " emoji
+{ } options {
+    // a // b
+    tag // `tick` ""quote"" 'q'
+= //	t
+""""")).
+Eval vm_compute in ("<<<M4323>>>" ++ check (runes_of_ascii "
+
+  options
+	{FixedStringPadFromLeft
+= 
+true
+    ; } 
+root  packet  P
+{
+char[
+	4
+]
+z,
+	}
+
+")).
+Eval vm_compute in ("<<<M2023>>>" ++ check (runes_of_ascii "root
+packet crc
+    { f32a @calculatedFrom( """ ++ [233]%N ++ runes_of_ascii "t" ++ [233]%N ++ runes_of_ascii """ )
+    `say ""hi""`, lengthOf `` ,  char[")).
+Eval vm_compute in ("<<<M2036>>>" ++ check (runes_of_ascii "root
+packet crc
+    { f32a @calculatedFrom( """ ++ [233]%N ++ runes_of_ascii "t" ++ [233]%N ++ runes_of_ascii """ )
+    `say ""hi""`, \ lengthOf `` ,  }")).
+Eval vm_compute in ("<<<M2914>>>" ++ check (runes_of_ascii "packet A {
+  match k as n {
+    [""a"", ""bb"", ""c c"", ""d"", ""e"", ""f""] : B
+    2 : C
+  },
 }")).
-Eval vm_compute in ("<<<M2402>>>" ++ check (runes_of_ascii "MetaData {
-A
+Eval vm_compute in ("<<<M4161>>>" ++ check (runes_of_ascii "packet A {
+    match k as n {
+        [1, 22, 007, 4, 5] : B,
+        2 : C,
+    },
+}")).
+Eval vm_compute in ("<<<M4444>>>" ++ check (runes_of_ascii "root packet rootA {
+    i32 MetaDataX @calculatedFrom(""CRC32"") `line1
+    line2`,
+}")).
+Eval vm_compute in ("<<<M3300>>>" ++ check (runes_of_ascii "packet o { @tag( // c
+42 ) repeat x { char[ 0123456789 ] i64_ , } , } options { }")).
+Eval vm_compute in ("<<<M3480>>>" ++ check (runes_of_ascii "packet orderItem {
+    u8 a,
+}
+root packet newOrder {
+    orderItem,
+    u8 x,
+}
+")).
+Eval vm_compute in ("<<<M3001>>>" ++ check (runes_of_ascii "packet A { Inner { match k as n { [1,22,007,4,5,66,7,8,9,10,11,12] : B, }, }, }")).
+Eval vm_compute in ("<<<M4387>>>" ++ check (runes_of_ascii "root packet crc {
+    f32a @calculatedFrom(""" ++ [233]%N ++ runes_of_ascii "t" ++ [233]%N ++ runes_of_ascii """) `say ""hi""`,
+    lengthOf,
+}")).
+Eval vm_compute in ("<<<M1302>>>" ++ check (runes_of_ascii "MetaData f32a {
+    int64 rootA
+`tab	here`, }packet
+    msg_type{
+} // " ++ [27880; 37322]%N)).
+Eval vm_compute in ("<<<M2892>>>" ++ check (runes_of_ascii "packet A {
+  match k as n {
+    [""a"", 22, ""c c"", 4] : B
+    2 : C
+  },
+}")).
+Eval vm_compute in ("<<<M2894>>>" ++ check (runes_of_ascii "packet A {
+  match k as n {
+    [1, 22, ""c c"", 4] : B
+    2 : C
+  },
+}")).
+Eval vm_compute in ("<<<M2211>>>" ++ check (runes_of_ascii "root
+    // `tick` ""quote"" 'q'
+    packet na" ++ [239]%N ++ runes_of_ascii "ve { trueish Packet , }
+")).
+Eval vm_compute in ("<<<M3172>>>" ++ check (runes_of_ascii "packet A { match k as n { [ // a
+ 1 // b
+ , // c
+ 2 ] // d
+ : B }, }")).
+Eval vm_compute in ("<<<M2210>>>" ++ check (runes_of_ascii "root
+    // `tick` ""quote"" 'q'
+    packet " ++ [21517; 23383]%N ++ runes_of_ascii " { trueish Packet , }
+")).
+Eval vm_compute in ("<<<M1944>>>" ++ check (runes_of_ascii "
+packet	As { @calculatedFrom(//@lengthOfx
+""{,}""	)lengthOf , } 	 ")).
+Eval vm_compute in ("<<<M2870>>>" ++ check (runes_of_ascii "packet A {
+  match k as n {
+    [""a"", 22] : B
+    2 : C
+  },
+}")).
+Eval vm_compute in ("<<<M133>>>" ++ check (runes_of_ascii "packet string_ // `tick` ""quote"" 'q'
+{ u
+//
+// " ++ [128512]%N ++ runes_of_ascii " emoji
+, }
+")).
+Eval vm_compute in ("<<<M4205>>>" ++ check (runes_of_ascii "root packet P {
+    hdr {
+        u8 a,
+    },
+    u8 x,
+}")).
+Eval vm_compute in ("<<<M1946>>>" ++ check (runes_of_ascii "
+packet	As { @calculatedFrom(//x
+""{,}""	')lengthOf , } 	 ")).
+Eval vm_compute in ("<<<M1930>>>" ++ check (runes_of_ascii "
+packet	As { @calculatedFrom(//x
+""{,}""	)lengthOf  } 	 ")).
+Eval vm_compute in ("<<<M529>>>" ++ check (runes_of_ascii "options{
+BodyLength =	""" ++ [128512]%N ++ runes_of_ascii """// `tick` ""quote"" 'q'
+; }
+")).
+Eval vm_compute in ("<<<M399>>>" ++ check (runes_of_ascii "
+packet Pad
+{ uint8 rootA`` ,
+} packet Foo  { }
+")).
+Eval vm_compute in ("<<<M2418>>>" ++ check (runes_of_ascii "MetaData A
+)
 i64
 chars	, } // `tick` ""quote"" 'q'")).
-Eval vm_compute in ("<<<M3030>>>" ++ check (runes_of_ascii "MetaData M {
-    u8 x `a
+Eval vm_compute in ("<<<M3736>>>" ++ check (runes_of_ascii "packet i8i8 {
+}
 
-b`,
-    T t `a
-
-b`,
+packet asx {
+    uint8 pack,
 }")).
-Eval vm_compute in ("<<<M1758>>>" ++ check (runes_of_ascii "options { }options }  { // `tick` ""quote"" 'q'")).
-Eval vm_compute in ("<<<M1399>>>" ++ check (runes_of_ascii "  packet asx{
-calculatedFrom lengthOf
-,	}
-")).
-Eval vm_compute in ("<<<M60>>>" ++ check (runes_of_ascii "root packet u
-    /// triple
-    {
+Eval vm_compute in ("<<<M1749>>>" ++ check (runes_of_ascii "options { options} {  } // `tick` ""quote"" 'q'")).
+Eval vm_compute in ("<<<M340>>>" ++ check (runes_of_ascii "packet int
+    { }
+    packet u128 {
     }
 ")).
-Eval vm_compute in ("<<<M1448>>>" ++ check (runes_of_ascii "root packet Foo // " ++ [128512]%N ++ runes_of_ascii " emoji
-{ } options {")).
-Eval vm_compute in ("<<<M3201>>>" ++ check (runes_of_ascii "MetaData zchar { zchar[ 3 ]
-// c
+Eval vm_compute in ("<<<M2785>>>" ++ check (runes_of_ascii "i64_ char = , packet [ ] @lengthOf( uint64")).
+Eval vm_compute in ("<<<M1160>>>" ++ check (runes_of_ascii "packet tag
+//x
+// " ++ [128512]%N ++ runes_of_ascii " emoji
+{ }
+// a // b
+")).
+Eval vm_compute in ("<<<M3200>>>" ++ check (runes_of_ascii "MetaData zchar { zchar[ 3 ] // c
 Pad , }")).
 Eval vm_compute in ("<<<M412>>>" ++ check (runes_of_ascii "MetaData
 // c
@@ -2302,63 +2281,67 @@ Eval vm_compute in ("<<<M412>>>" ++ check (runes_of_ascii "MetaData
 T {
     }
 ")).
-Eval vm_compute in ("<<<M1362>>>" ++ check (runes_of_ascii "// " ++ [27880; 37322]%N ++ runes_of_ascii "
-options {
-crc
-=false
-    ; }
+Eval vm_compute in ("<<<M348>>>" ++ check (runes_of_ascii "packet
+    A
+{} options {
+T	=
+'0' }
 ")).
-Eval vm_compute in ("<<<M3049>>>" ++ check (runes_of_ascii "root packet A {
-    u8 x `tab
-	x`,
+Eval vm_compute in ("<<<M3020>>>" ++ check (runes_of_ascii "packet A {
+    u8 x `a
+    b
+  c`,
 }")).
-Eval vm_compute in ("<<<M2615>>>" ++ check (runes_of_ascii "packet A { match k as n { 1 B }, }")).
-Eval vm_compute in ("<<<M2249>>>" ++ check (runes_of_ascii "MetaData Packet { }packet	asx  {")).
-Eval vm_compute in ("<<<M3979>>>" ++ check (runes_of_ascii "root packet As {
-    trueish,
-}")).
-Eval vm_compute in ("<<<M3123>>>" ++ check (runes_of_ascii "packet A {
- u8 x `d" ++ [12]%N ++ runes_of_ascii "`, // c" ++ [12]%N ++ runes_of_ascii "
-}")).
-Eval vm_compute in ("<<<M2062>>>" ++ check (runes_of_ascii "MetaData A { u64 u64 pack, }")).
-Eval vm_compute in ("<<<M2778>>>" ++ check ([65533; 28]%N ++ runes_of_ascii "#" ++ [65533; 65533]%N ++ runes_of_ascii "]" ++ [65533]%N ++ runes_of_ascii "L)" ++ [65533; 65533]%N ++ runes_of_ascii "." ++ [65533; 127]%N ++ runes_of_ascii "t" ++ [65533; 65533; 16]%N ++ runes_of_ascii ":H""*" ++ [65533; 65533]%N ++ runes_of_ascii "S" ++ [65533; 65533]%N)).
-Eval vm_compute in ("<<<M3014>>>" ++ check (runes_of_ascii "packet A {
-    u8 x `
-`,
-}")).
-Eval vm_compute in ("<<<M3697>>>" ++ check (runes_of_ascii "packet string_ {
-    u,
-}")).
-Eval vm_compute in ("<<<M3278>>>" ++ check (runes_of_ascii "options { u8x =
-// c
-3 }")).
-Eval vm_compute in ("<<<M4304>>>" ++ check (runes_of_ascii "
+Eval vm_compute in ("<<<M2799>>>" ++ check (runes_of_ascii "Y'; XMxS`r%e+3e8IXpIp]:H8_+-WZ@@1,")).
+Eval vm_compute in ("<<<M2829>>>" ++ check ([127; 65533; 65533; 65533; 65533]%N ++ runes_of_ascii "Cx" ++ [65533]%N ++ runes_of_ascii "Z" ++ [20; 28; 65533; 65533]%N ++ runes_of_ascii "b" ++ [65533; 65533; 65533; 65533]%N ++ runes_of_ascii "g" ++ [65533]%N ++ runes_of_ascii "`P" ++ [3; 65533]%N ++ runes_of_ascii "j" ++ [65533; 65533]%N ++ runes_of_ascii "&" ++ [26; 65533]%N ++ runes_of_ascii "z" ++ [65533]%N)).
+Eval vm_compute in ("<<<M1289>>>" ++ check (runes_of_ascii "
+packet //x
+Header // " ++ [27880; 37322]%N ++ runes_of_ascii "
+{	}")).
+Eval vm_compute in ("<<<M3772>>>" ++ check (runes_of_ascii "
+// c" ++ [11]%N ++ runes_of_ascii "
+    packet A
 
-  //	t
-	options { }
+    {}
 ")).
-Eval vm_compute in ("<<<M1301>>>" ++ check (runes_of_ascii "packet len {
-    } 	 ")).
-Eval vm_compute in ("<<<M2617>>>" ++ check (runes_of_ascii "packet A { @tag(1) }")).
-Eval vm_compute in ("<<<M2849>>>" ++ check (runes_of_ascii "y+" ++ [65533; 65533; 65533]%N ++ runes_of_ascii "Y65x" ++ [1125; 65533; 65533; 0; 65533; 223]%N ++ runes_of_ascii "Q	" ++ [7; 65533]%N)).
-Eval vm_compute in ("<<<M3072>>>" ++ check (runes_of_ascii "// c" ++ [160]%N ++ runes_of_ascii "
+Eval vm_compute in ("<<<M2708>>>" ++ check (runes_of_ascii "M#T%6 >pw-dCYhy71MjW^j+tv~#}")).
+Eval vm_compute in ("<<<M3969>>>" ++ check (runes_of_ascii "options {
+    u8x = 3
+}// c")).
+Eval vm_compute in ("<<<M4296>>>" ++ check (runes_of_ascii "
+packet  repeatCount { }
+")).
+Eval vm_compute in ("<<<M550>>>" ++ check (runes_of_ascii "//	t
+packet
+f32a
+    { }")).
+Eval vm_compute in ("<<<M3380>>>" ++ check (runes_of_ascii "// c
+packet lengthOf { }")).
+Eval vm_compute in ("<<<M4246>>>" ++ check (runes_of_ascii "MetaData M {
+    x y,
+}")).
+Eval vm_compute in ("<<<M1607>>>" ++ check (runes_of_ascii "root packet Foo // " ++ [65533; 65533]%N)).
+Eval vm_compute in ("<<<M2642>>>" ++ check (runes_of_ascii "MetaData M { u8 x, }")).
+Eval vm_compute in ("<<<M3127>>>" ++ check (runes_of_ascii "// c 	
 packet A {
 }")).
-Eval vm_compute in ("<<<M3805>>>" ++ check (runes_of_ascii "// @lengthOf(
-//	t")).
-Eval vm_compute in ("<<<M3114>>>" ++ check (runes_of_ascii "packet A {
-}// c" ++ [11]%N)).
-Eval vm_compute in ("<<<M1217>>>" ++ check (runes_of_ascii "MetaData o { }
+Eval vm_compute in ("<<<M3062>>>" ++ check (runes_of_ascii "// c 
+packet A {
+}")).
+Eval vm_compute in ("<<<M3144>>>" ++ check (runes_of_ascii "packet A {
+}// c x")).
+Eval vm_compute in ("<<<M3099>>>" ++ check (runes_of_ascii "packet A {
+}// c" ++ [8233]%N)).
+Eval vm_compute in ("<<<M1188>>>" ++ check (runes_of_ascii "options {
+    }")).
+Eval vm_compute in ("<<<M755>>>" ++ check (runes_of_ascii "
+ // " ++ [128512]%N ++ runes_of_ascii " emoji")).
+Eval vm_compute in ("<<<M861>>>" ++ check (runes_of_ascii "// a // b
 ")).
-Eval vm_compute in ("<<<M753>>>" ++ check (runes_of_ascii "options { }
-")).
-Eval vm_compute in ("<<<M752>>>" ++ check (runes_of_ascii "options{}
-")).
-Eval vm_compute in ("<<<M2477>>>" ++ check (runes_of_ascii "@leftPad")).
-Eval vm_compute in ("<<<M2423>>>" ++ check (runes_of_ascii "char[]")).
-Eval vm_compute in ("<<<M2449>>>" ++ check (runes_of_ascii "false")).
-Eval vm_compute in ("<<<M4184>>>" ++ check (runes_of_ascii "// " ++ [27880; 37322]%N)).
-Eval vm_compute in ("<<<M2134>>>" ++ check (runes_of_ascii "Met")).
-Eval vm_compute in ("<<<M56>>>" ++ check (runes_of_ascii "
-")).
-Eval vm_compute in ("<<<M2516>>>" ++ check (runes_of_ascii "`")).
+Eval vm_compute in ("<<<M2752>>>" ++ check (runes_of_ascii "nz:c/H>Q")).
+Eval vm_compute in ("<<<M2460>>>" ++ check (runes_of_ascii "repeat")).
+Eval vm_compute in ("<<<M2511>>>" ++ check (runes_of_ascii """ab""")).
+Eval vm_compute in ("<<<M2441>>>" ++ check (runes_of_ascii "uint")).
+Eval vm_compute in ("<<<M2496>>>" ++ check (runes_of_ascii "/ /")).
+Eval vm_compute in ("<<<M2493>>>" ++ check (runes_of_ascii "@@")).
+Eval vm_compute in ("<<<M2678>>>" ++ check (runes_of_ascii " ")).
